@@ -12,1175 +12,2840 @@ Definition show_fres (r : fres) : string :=
   end.
 Definition check (rs : list rune) : string := digest (show_fres (format_res rs)).
 Definition full (rs : list rune) : string := show_fres (format_res rs).
-Eval vm_compute in ("<<<M184>>>" ++ check (runes_of_ascii "MetaData float {
-    lengthOf u128 `tab	here` ,u x ,
-metadata crc `line1
-line2` ,
-} root
-packet//
-trueish { @leftPad (
-'0'
-    ) repeat zchar[ 10 ] lengthOf `u8 x,`
-    ,@leftPad
-// " ++ [27880; 37322]%N ++ runes_of_ascii "
-// trailing space 
-('\x00'	) zchar[ 255 ] tag
-// a // b
-// @lengthOf(
-,
-@leftPad	(
-    ) u128 trueish, chars@lengthOf(
-    i64_
-) `it's` //	t
-,
-    @tag( 10 ) zchar[
-    007 ] asx, char[
-1]
-    zchar,
-// `tick` ""quote"" 'q'
-// trailing space 
-@tag( 7
-    // packet A { u8 x, }
-    ) @calculatedFrom(""packet""
-    )	match  f32a as
-uint8x{
-00  :Header , 007// trailing space 
-: charz ,[ 255 , """ ++ [233]%N ++ runes_of_ascii "t" ++ [233]%N ++ runes_of_ascii """ ] :
-rootA
-    // `tick` ""quote"" 'q'
-    ""it's"" :
-    lengthOf
-,""x y"" :
-pack //x
-,
-""" ++ [28040; 24687]%N ++ runes_of_ascii """
-: _x , } , repeat Header { char[ 7] i8i8 ,char  msg_type @lengthOf(pack ) `line1
-line2`
-,
-// packet A { u8 x, }
-// a // b
-uint8
-crc @lengthOf(
-zchar ) `line1
-line2` ,} , } packet Foo
-    { } packet// @lengthOf(
-Foo { zchar[0123456789
-    ]
-    packetx
-    @calculatedFrom(
-""packet"" // packet A { u8 x, }
-)
-    `doc`  , zchar @calculatedFrom( ""\n""//	t
-)
-`
-` , @leftPad  ( '\x00' )
-    @tag( // trailing space 
-65535 ) char[ 0
-/// triple
-// c
-] metadata@calculatedFrom( ""a\""b"" ), repeat
-    lengthOf{ lengthOf
-`" ++ [233]%N ++ runes_of_ascii "`
-    // `tick` ""quote"" 'q'
-    ,
-} , As , }
-packet BodyLength {//x
-@calculatedFrom( ""a\""b""
-)
-    @lengthOf( x ) @tag( 00
-) Packet zchar
-    `` ,
-@tag(0123456789 )	repeat	char[ 255 ]  x `it's`,// a // b
-u
-// " ++ [128512]%N ++ runes_of_ascii " emoji
-// c
-{ match BodyLength
-as
-// packet A { u8 x, }
-// `tick` ""quote"" 'q'
-tag
-    {3
-: matchKey ,} ,
-} ,@tag( 0123456789 )
-    // " ++ [128512]%N ++ runes_of_ascii " emoji
-    char	asx `line1
-line2`,@lengthOf( chars ) @calculatedFrom(
-""a	b"" )f64 len
-    , match int as //x
-BodyLength { 1
-:
-    Header ,[ 0 ] :// c
-tag
-""" ++ [28040; 24687]%N ++ runes_of_ascii """ :asx, } , @leftPad
-( ' '
-    ) metadata `crlf
-line` ,
-// `tick` ""quote"" 'q'
-// trailing space 
-len
-@lengthOf( metadata
-    ), zchar[  65535 ]
-    A
-@lengthOf( // c
-trueish )
-,@leftPad ( '0'
-)
-repeatCount Z9_
-    `" ++ [233]%N ++ runes_of_ascii "`  ,
-} 	 ")).
-Eval vm_compute in ("<<<M1899>>>" ++ check (runes_of_ascii "
-
-  options
-{
-StringPrefixLenType
-	=u16
-	;
-
-ArrayPrefixLenType= 
-u16  ;
-	}
-packet
-SampleBinary
-	{
-uint16
-
-    MsgType`" ++ [28040; 24687; 31867; 22411]%N ++ runes_of_ascii "` 
-,u16
-BodyLenght 
-@lengthOf(
-
-Body )
-`" ++ [28040; 24687; 20307; 38271; 24230]%N ++ runes_of_ascii "`,
-match	MsgType
-
-    as
-    Body{
-
-    1
-	:
-	Logon
-    , 2
-	:
-
-    Logout 
-,3
-
-:
-	Heartbeat , 4
-    : RiskControlRequest
-
-, 5  : RiskControlResponse,
-} , 
+Eval vm_compute in ("<<<M4335>>>" ++ check (runes_of_ascii "  packet
+	options1 {
 @calculatedFrom(
-    ""CRC32"" )
+    ""\n"" )// `tick` ""quote"" 'q'
+	string
 
-u32
-Ckecksum`" ++ [26657; 39564; 21644]%N ++ runes_of_ascii "` , 
-}
-packet
-Logon  { @leftPad(	'0' ) char[
-	10
-    ]
+int
 
-UserName `" ++ [29992; 25143; 21517]%N ++ runes_of_ascii "`
-	,string Password
-	`" ++ [23494; 30721]%N ++ runes_of_ascii "` ,  uint64
-ClientId  `" ++ [23458; 25143; 31471]%N ++ runes_of_ascii "ID`	,  u16
-	HeartbeatInterval `" ++ [24515; 36339; 38388; 38548]%N ++ runes_of_ascii "`
-,}packet 
-Logout {
-    @rightPad( '0'
+@lengthOf(
+	packetx 
+        //
+	// " ++ [128512]%N ++ runes_of_ascii " emoji
+  	),  @tag(0
 
-    )  char[
-10
-
-]
-    UserName
-    `" ++ [29992; 25143; 21517]%N ++ runes_of_ascii "`
-
-,
-uint64 
-ClientId
-`" ++ [23458; 25143; 31471]%N ++ runes_of_ascii "ID`
-,
-    }	packet
-Heartbeat { 
-} packet	RiskControlRequest{  string UniqueOrderId
-`" ++ [21807; 19968; 35746; 21333; 21495]%N ++ runes_of_ascii "` ,
-char[
-	16
-    ] ClOrdID `" ++ [23458; 25143; 35746; 21333; 21495]%N ++ runes_of_ascii "`	, char[
-
-    3
-    ] MarketID
-	`" ++ [24066; 22330]%N ++ runes_of_ascii "id`
-,char[	12 
-]SecurityID 
-`" ++ [35777; 21048; 20195; 30721]%N ++ runes_of_ascii "`
-,
-
-    char 
-Side
-
-`" ++ [20080; 21334; 26041; 21521]%N ++ runes_of_ascii "`	, 
-char OrderType
-	`" ++ [35746; 21333; 31867; 22411]%N ++ runes_of_ascii "`
-	, 
-u64 
-Price `" ++ [20215; 26684]%N ++ runes_of_ascii "`,
-	u32
-Qty
-
-    `" ++ [25968; 37327]%N ++ runes_of_ascii "` ,
-repeat
-	string ExtraInfo`" ++ [38468; 21152; 20449; 24687]%N ++ runes_of_ascii "`
-    ,repeat
-SubOrder
-
-    {	char[16 
-] ClOrdID `" ++ [23376; 35746; 21333; 21495]%N ++ runes_of_ascii "`
-
-    ,u64 Price  `" ++ [23376; 35746; 21333; 20215; 26684]%N ++ runes_of_ascii "` ,
-u32
-    Qty
-
-    `" ++ [23376; 35746; 21333; 25968; 37327]%N ++ runes_of_ascii "`
-    ,  }
-    ,
-}packet	RiskControlResponse
-
-    {
-
-    string UniqueOrderId
-    `" ++ [21807; 19968; 35746; 21333; 21495]%N ++ runes_of_ascii "`
-
-    ,i32
-Status
-`" ++ [29366; 24577]%N ++ runes_of_ascii "` ,
-string Msg
-`" ++ [32467; 26524; 20449; 24687]%N ++ runes_of_ascii "` ,
-repeat
-	Detail
-    ,
-    }  packet
-
-Detail {string
-	RuleName	`" ++ [35268; 21017; 21517; 31216]%N ++ runes_of_ascii "`
-
-, 
-u16  Code
-
-`" ++ [21407; 22240; 20195; 30721]%N ++ runes_of_ascii "`
-,
-
-}
-
-")).
-Eval vm_compute in ("<<<M381>>>" ++ check (runes_of_ascii "options {
-	StringPrefixLenType = u16;
-	ArrayPrefixLenType = u16;
-}
-
-packet SampleBinary {
-	uint16 MsgType `" ++ [28040; 24687; 31867; 22411]%N ++ runes_of_ascii "`,
-	u16 BodyLenght @lengthOf(Body) `" ++ [28040; 24687; 20307; 38271; 24230]%N ++ runes_of_ascii "`,
-	match MsgType as Body {
-		1 : Logon,
-		2 : Logout,
-		3 : Heartbeat,
-		4 : RiskControlRequest,
-		5 : RiskControlResponse,
-	},
-	@calculatedFrom(""CRC32"")
-	u32 Ckecksum `" ++ [26657; 39564; 21644]%N ++ runes_of_ascii "`,
-}
-
-packet Logon {
-	@leftPad('0')
-	char[10] UserName `" ++ [29992; 25143; 21517]%N ++ runes_of_ascii "`,
-	string Password `" ++ [23494; 30721]%N ++ runes_of_ascii "`,
-	uint64 ClientId `" ++ [23458; 25143; 31471]%N ++ runes_of_ascii "ID`,
-	u16 HeartbeatInterval `" ++ [24515; 36339; 38388; 38548]%N ++ runes_of_ascii "`,
-}
-
-packet Logout {
-	@rightPad('0')
-	char[10] UserName `" ++ [29992; 25143; 21517]%N ++ runes_of_ascii "`,
-	uint64 ClientId `" ++ [23458; 25143; 31471]%N ++ runes_of_ascii "ID`,
-}
-
-packet Heartbeat {
-}
-
-packet RiskControlRequest {
-	string UniqueOrderId `" ++ [21807; 19968; 35746; 21333; 21495]%N ++ runes_of_ascii "`,
-	char[16] ClOrdID `" ++ [23458; 25143; 35746; 21333; 21495]%N ++ runes_of_ascii "`,
-	char[3] MarketID `" ++ [24066; 22330]%N ++ runes_of_ascii "id`,
-	char[12] SecurityID `" ++ [35777; 21048; 20195; 30721]%N ++ runes_of_ascii "`,
-	char Side `" ++ [20080; 21334; 26041; 21521]%N ++ runes_of_ascii "`,
-	char OrderType `" ++ [35746; 21333; 31867; 22411]%N ++ runes_of_ascii "`,
-	u64 Price `" ++ [20215; 26684]%N ++ runes_of_ascii "`,
-	u32 Qty `" ++ [25968; 37327]%N ++ runes_of_ascii "`,
-	repeat string ExtraInfo `" ++ [38468; 21152; 20449; 24687]%N ++ runes_of_ascii "`,
-	repeat SubOrder {
-		char[16] ClOrdID `" ++ [23376; 35746; 21333; 21495]%N ++ runes_of_ascii "`,
-		u64 Price `" ++ [23376; 35746; 21333; 20215; 26684]%N ++ runes_of_ascii "`,
-		u32 Qty `" ++ [23376; 35746; 21333; 25968; 37327]%N ++ runes_of_ascii "`,
-	},
-}
-
-packet RiskControlResponse {
-	string UniqueOrderId `" ++ [21807; 19968; 35746; 21333; 21495]%N ++ runes_of_ascii "`,
-	i32 Status `" ++ [29366; 24577]%N ++ runes_of_ascii "`,
-	string Msg `" ++ [32467; 26524; 20449; 24687]%N ++ runes_of_ascii "`,
-	repeat Detail,
-}
-
-packet Detail {
-	string RuleName `" ++ [35268; 21017; 21517; 31216]%N ++ runes_of_ascii "`,
-	u16 Code `" ++ [21407; 22240; 20195; 30721]%N ++ runes_of_ascii "`,
-}")).
-Eval vm_compute in ("<<<M356>>>" ++ check (runes_of_ascii "packet
-Header { trueish @calculatedFrom(
-""a	b"")
-,
-    Header@calculatedFrom(
-    ""a\\"" //
 )
-,//	t
-@calculatedFrom(  ""a\\"" )/// triple
-i16	body
-@lengthOf( f32a  ) , // packet A { u8 x, }
-match // packet A { u8 x, }
-stringy as _x{ ""`tick`""
-// trailing space 
-//
-: string_ ,42:u8x , ""\n""
-    :
-    repeatCount, ""a\\"" : options1 ,	[ 4294967296 , ""{,}""
-/// triple
-//x
-,
-    4294967296 ,  """ ++ [28040; 24687]%N ++ runes_of_ascii """ , 3//	t
-,
-""abc"" ]
-:
-    //	t
-    u8x , } , zchar[0123456789
-    ] MetaDataX,@calculatedFrom(
-    ""x y"" //	t
-) @lengthOf( A )	zchar[ //x
-00 ] a1 , match
-// " ++ [128512]%N ++ runes_of_ascii " emoji
-// `tick` ""quote"" 'q'
-options1 as calculatedFrom // packet A { u8 x, }
+	@tag(0123456789 
+) @tag(  10
+
+)
+
+match 	 //
+
+len// @lengthOf(
+    	as  
+  // a // b
+  // packet A { u8 x, }
+
+  rootA
+
 {
-    [ ""// no comment""
-    // " ++ [27880; 37322]%N ++ runes_of_ascii "
-    ,  ""abc"" , 65535,	""CRC32""
-, 0
-, ""CRC32"" ]
-: uint8x
-    , ""// no comment"" :
-// " ++ [128512]%N ++ runes_of_ascii " emoji
-// trailing space 
-chars	,	[ """ ++ [233]%N ++ runes_of_ascii "t" ++ [233]%N ++ runes_of_ascii """ , ""a	b"" ]
-    :
-    pack , 10 :	tag ,}  , @tag( 42 )repeat
-    // trailing space 
-    len,
-    @lengthOf( u )char[] f32a
-, // packet A { u8 x, }
-}
-")).
-Eval vm_compute in ("<<<M1655>>>" ++ check (runes_of_ascii "packet u8x {
-}
 
-packet calculatedFrom {
-    i8i8 len,
-    match lengthOf as leftPad {
-        007 : crc,
-        ""abc"" : o,
-        10 : falsey,
-    },
-    repeat i8 metadata,
-    @calculatedFrom(""" ++ [28040; 24687]%N ++ runes_of_ascii """)
-    repeat int16 leftPad ``,
-    BodyLength @calculatedFrom(""a\\""),
-    char[] f32a,
-    tag rootA,
-    @rightPad(' ')
-    @tag(007)
-    match o as _x {
-        [
-            1, ""a	b"", ""1"", 00, 7,
-            """ ++ [233]%N ++ runes_of_ascii "t" ++ [233]%N ++ runes_of_ascii """, 7, 00
-        ] : Foo,
-        // " ++ [27880; 37322]%N ++ runes_of_ascii "
-        ""\" ++ [233]%N ++ runes_of_ascii """ : matchKey,
-    },//x
-    @rightPad('\x00')
-    string msg_type,
-}
-
-packet trueish {
-    u8x ``,
-    @lengthOf(Header)
-    repeat int64 int ``,
-}
-
-MetaData matchKey {
-    string msg_type,
-    zchar[4294967296] repeatCount `it's`,
-    u8 crc,
-    zchar o,
-    int64 asx,
-}
-
-root packet chars {
-}")).
-Eval vm_compute in ("<<<M362>>>" ++ check (runes_of_ascii "  packet
-    // a // b
-    MetaDataX {
-match _x as roots {
-""`tick`"" :o , [00, // `tick` ""quote"" 'q'
-0123456789
-, 1 ,
-    0123456789,""a\\""  ,
-    ""`tick`""  , 007
-,
-    // " ++ [27880; 37322]%N ++ runes_of_ascii "
-    ""// no comment""]
-: Logon , }	, f32 len @calculatedFrom(
-""{,}"" // c
-) `" ++ [233]%N ++ runes_of_ascii "` , // a // b
-@calculatedFrom( """") @leftPad
-( '\x00') i32 calculatedFrom@lengthOf(
-    Packet)
-    // @lengthOf(
-    `line1
-line2`
-    , @calculatedFrom( ""\" ++ [233]%N ++ runes_of_ascii """	)
-match asx as	As { ""it's"" :_x,""x y""  : calculatedFrom, ""packet"" :
-    Pad
-, } ,  char[] x, char[] matchKey,trueish lengthOf ,@lengthOf(roots	) repeat len // c
-, @lengthOf( crc) repeat
-//
-// " ++ [27880; 37322]%N ++ runes_of_ascii "
-char[]u128 `tab	here`, repeat u64 Header
-    //
-    , }
-")).
-Eval vm_compute in ("<<<M221>>>" ++ check (runes_of_ascii "packet
-matchKey { match Header as chars
-{ [ """ ++ [233]%N ++ runes_of_ascii "t" ++ [233]%N ++ runes_of_ascii """ ,0 ]	: body
-,
     [
-    42,10 ]
-    :msg_type
+""\" ++ [233]%N ++ runes_of_ascii """
+	,
+    1
+,	3
+]
+	: charz
+    ,[ ""a\""b"" 
+]	// trailing space 
+:
+
+    x
+    ,}  ,
+	@lengthOf( i64_)match
+	BodyLength  // trailing space 
+    as
+    //
+	  roots
+{ ""\n"" :u
 ,
-""" ++ [128512]%N ++ runes_of_ascii """
-: options1 ,7 :
-    roots ""\n"" :
-    // c
-    packetx,	} ,
-    zchar[
-0 ]
-A
-@lengthOf(  int )
-, char[] Header `
-` ,// trailing space 
-repeat
-    float { repeat
-o
-    , // `tick` ""quote"" 'q'
-repeat
-int32 x_y_z `
-` , }	,@tag( 0 ) u64 string_ @calculatedFrom(""`tick`"" ) // " ++ [27880; 37322]%N ++ runes_of_ascii "
-`two words` , calculatedFrom // " ++ [27880; 37322]%N ++ runes_of_ascii "
-{ matchKey
-//
-// packet A { u8 x, }
-, // packet A { u8 x, }
-rootA
-, } ,
-}
-    options // " ++ [128512]%N ++ runes_of_ascii " emoji
-{ chars =	"""" //
-;
-    As = true	; Foo =
-7	; lengthOf =  ""a\\"" }
-
-")).
-Eval vm_compute in ("<<<M1560>>>" ++ check (runes_of_ascii "options {
-    LittleEndian = false;
-    ArrayPrefixLenType = u64;
-    FixedStringPadChar = '0';
-}
-packet Quote {
-    repeat InFlags37 {
-        char[] lastPx,
-    },
-    i16 tag7,
-    char[] f1,
-    zchar[6] Note,
-}
-packet Order {
-    u8 Ref,
-    repeat Quote,
-    repeat string Acct,
-}
-root packet Heartbeat {
-    repeat Quote,
-    @leftPad('0') char[11] OrderId,
-    zchar[8] Ref,
-    u32 Flags,
-    u32 Tail @lengthOf(Body),
-    match Flags as Body {
-        156 : Order,
-        7 : Quote,
-    },
-}
-")).
-Eval vm_compute in ("<<<M2110>>>" ++ check (runes_of_ascii "options {
-    LittleEndian = true;
-    StringPrefixLenType = u16;
-    ArrayPrefixLenType = u64;
 }
 
-packet Fill {
+    , repeat
+	float  { options1  {
+
+repeat  f32 len	, }
+    ,  }, 
+zchar[ 0123456789 ] // a // b
+	chars,
+@leftPad
+
+(
+
+'\x00' )
+@calculatedFrom( ""// no comment"" )
+
+    @calculatedFrom(""""  ) int64 rootA  // packet A { u8 x, }
+    ,
 }
-
-packet Logon {
-    repeat char[3] Tail,
-    zchar[6] venue,
-    repeat string Side2,
-}
-
-root packet Cancel {
-    char[] Flags,
-    char[] OrderId,
-    zchar[6] msgKind,
-    Fill,
-    char[] Acct,
-    u8 f1,
-    match f1 as Body {
-        188 : Fill,
-        5 : Logon,
-    },
-    u32 clOrdID @calculatedFrom(""CRC32""),
-}")).
-Eval vm_compute in ("<<<M1887>>>" ++ check (runes_of_ascii "
-
-  root
-    packet// `tick` ""quote"" 'q'
-
-	roots {  @rightPad ( 	 // trailing space 
-'0'
-	) char[	255
-
-    ]
-    T`line1
-line2`
-,
-	}
 
 packet
-	msg_type{
+len{
 
-    Logon{  f64 x_y_z  ``
+    @tag(
 
-,  } ,i8 
-pack
+10 // 50% %s
+) 
+repeat
 
-    @lengthOf( stringy
-
-),
-
-@tag(
-
-4294967296	)
-
-char[] msg_type ,
-	stringy  // a // b
-	{
-match x
-as
-
-    roots {	1 : options1,
-
-    ""it's""
-
-:	BodyLength  , }
-,}	, } ")).
-Eval vm_compute in ("<<<M2011>>>" ++ check (runes_of_ascii "packet 
-Z9_  {
-} packet
-T
-{ repeat
-charz{ match
-	float
-    as	// " ++ [128512]%N ++ runes_of_ascii " emoji
-
-  stringy	{
-00
-:f32a
-
-    [  00
-	    //x
+float32
+	len
 	,
-00	,  ""a\\"" 
-      // packet A { u8 x, }
-// a // b
-    	,
-0 , 
-7 ,
 
-    0
-	] :
-
-As  ,
-    } 
-, //	t
-	  uint32 asx
-	,  
-  //
-/// triple
-	repeat u8x
-	{
-	repeat 
-	//x
-    //
-    u8 
-string_
-
-,} ,
-
-},
-    }")).
-Eval vm_compute in ("<<<M1505>>>" ++ check (runes_of_ascii "packet
-A 
-{
-u8
-    a
-
+match
+	matchKey
+as 
+x_y_z {  ""CRC32"" :  matchKey
 ,
+[
+	00 ,
+3]	: f32a
+, 
+""x y"" 
+  //	t
+	:
+
+    lengthOf
+    10: MetaDataX
+7 : // packet A { u8 x, }
+
+MetaDataX , 
+""" ++ [233]%N ++ runes_of_ascii "t" ++ [233]%N ++ runes_of_ascii """:	x_y_z
+
+} ,
+
+@rightPad
+	(
+'0'
+
+) 
+  // packet A { u8 x, }
+
+@leftPad (  )
+@tag(
+    10
+
+    ) u8x
+	@lengthOf( lengthOf
+)	, 
+}
+
+packet As
+
+    {	char[]
+calculatedFrom  ,  } 
+options
+{
+calculatedFrom	=
+
+    ""a\\""
+	; 
+len
+
+=
+007	;i64_=
+
+10
+;
 } 
 packet
 
-    B { u16 b	,
-} packet
-	C
-{
-u32
-c	, 
-}
-root	packet	M
-{ u16
-    Kc
+Header 	 // trailing space 
+		{
+match o as
+	matchKey
+{ [3
+    ,
+""""
+    ]
+	:T , 
+""{,}"": calculatedFrom	}
+	,repeat
+	char[  // a // b
+  255
+
+]
+
+    u// packet A { u8 x, }
+	,char[] Packet
+
+    ,// a // b
+
+	repeat
+
+int64
+
+packetx
 ,
-u16  Kb
-, u16
-Ka , match
-	Kc as
-    X{
-	9
-:
 
-A ,10
-:
+@leftPad
+    (  '\x00' )  @calculatedFrom(
+    """" ) 
+	//x
+	  // @lengthOf(
+  zchar{	f32 zchar `
+`	,match u128
 
-B  ,	}
-, 
-match
-
-Kb as Y {2 
-:
-C ,
-
-    1:	A
-    ,} , match
-	Ka  as
-Z
+    as options1
 
     {
-1  :
-B,  } 
+[ 
+// c
+  // 50% %s
+  ""abc""
+
+// a // b
+,10,
+65535
+
+    ,
+
+0
+
 ,
 
-A,  B	,
-C 
+    ""\n""
+
+    ,""" ++ [128512]%N ++ runes_of_ascii """
+
 ,
+0123456789] :
+	chars
+    ,// 50% %s
+00 :
+	As ,
+
+    ""a	b"":	// " ++ [128512]%N ++ runes_of_ascii " emoji
+
+packetx,//
+      10 : 
+a1
+
+,
+
+    },
+	} , 
+float64 calculatedFrom 
+@lengthOf( packetx
+	) ,
+
+char[
+00
+
+]
+
+    string_
+`
+` ,uint8	charz
+    @lengthOf(body 
+) 	 // packet A { u8 x, }
+
+  `two words` 
+        // @lengthOf(
+    ,
+	@calculatedFrom( ""`tick`"")zchar[
+00
+    ]
+crc
+    @lengthOf( a1
+)
+
+//x
+	// c
+`line1
+line2` 
+,}
+")).
+Eval vm_compute in ("<<<M4242>>>" ++ check (runes_of_ascii "root packet i8i8 {
+    i8 crc,
+    @rightPad()
+    uint64 u128 `crlf
+        line`,
+    uint64 _x `
+        `,
+    x,
+    i16 As @calculatedFrom(""" ++ [128512]%N ++ runes_of_ascii """) `crlf
+        line`,
+    leftPad {
+        u {
+            zchar[4294967296] MetaDataX `crlf
+                        line`,
+            calculatedFrom,
+            repeat u16 T `tab	here`,
+            // packet A { u8 x, }
+        },
+        string As @calculatedFrom("""") ``,
+    },
+    @calculatedFrom(""" ++ [128512]%N ++ runes_of_ascii """)
+    match falsey as o {
+        0 : Logon,
+        42 : body,
+    },
+    pack MetaDataX,
+    u32 lengthOf @lengthOf(Packet) `line1
+        line2`,
+}// c
+
+options {
+    asx = false
+}
+
+packet i64_ {
+    A {
+        char[] f32a @lengthOf(options1) `it's`,
+    },
+    repeat x_y_z matchKey,
+    repeat char[] x_y_z `it's`,
+    @lengthOf(As)
+    char[] x_y_z,
+    @tag(00)
+    @calculatedFrom(""" ++ [233]%N ++ runes_of_ascii "t" ++ [233]%N ++ runes_of_ascii """)
+    u8 pack @calculatedFrom(""CRC32""),
+}
+
+packet roots {
+    match roots as f32a {
+        3 : uint8x,
+        7 : u128,
+        //x
+        """ ++ [28040; 24687]%N ++ runes_of_ascii """ : Z9_,
+        [
+            7, ""a	b"", """", 7, ""packet"",
+            ""packet"", ""x y""
+        ] : packetx,
+        ""{,}"" : u,
+    },
+    @lengthOf(msg_type)
+    match asx as uint8x {
+        [""a	b"", 0, """ ++ [28040; 24687]%N ++ runes_of_ascii """, 4294967296, 65535] : u,
+        00 : options1,
+        0123456789 : body,
+    },
+    i64_,
+    @tag(65535)
+    @lengthOf(lengthOf)
+    Header `doc`,
+    uint16 roots @calculatedFrom(""" ++ [28040; 24687]%N ++ runes_of_ascii """),
+    @rightPad('0')
+    match u8x as f32a {
+        [""x y"", """ ++ [128512]%N ++ runes_of_ascii """, ""`tick`""] : calculatedFrom,
+        ""a\""b"" : packetx,
+        [0] : As,
+        [""" ++ [28040; 24687]%N ++ runes_of_ascii """] : Z9_,
+    },
+    @lengthOf(Logon)
+    match chars as len {
+        [3, ""a\\""] : string_,
+        [""it's"", ""a\\""] : len,
+        [""\n"", 3, """ ++ [28040; 24687]%N ++ runes_of_ascii """] : rootA,
+        10 : msg_type,
+    },
+    char[] chars @lengthOf(trueish) `{ , }`,
+}")).
+Eval vm_compute in ("<<<M1024>>>" ++ check (runes_of_ascii "options
+    {Logon = ""{,}""
+// " ++ [27880; 37322]%N ++ runes_of_ascii "
+// " ++ [27880; 37322]%N ++ runes_of_ascii "
+; roots =
+    ""packet""  u128
+    = u16 } MetaData o {
+    float64 Header`it's` , Packet f32a , T leftPad
+`crlf
+line`
+    , }
+    packet _x// a // b
+{ @lengthOf( Header ) match asx// `tick` ""quote"" 'q'
+as
+    calculatedFrom  { 3  : u 10
+: MetaDataX, // c
+""`tick`""
+:
+    As , }
+    ,
+    // c
+    u8
+calculatedFrom `u8 x,` , calculatedFrom @lengthOf(
+body )  `tab	here` ,
+@lengthOf(
+    falsey
+) char[ 00
+]	msg_type
+`a\`
+// " ++ [27880; 37322]%N ++ runes_of_ascii "
+//
+, match o
+    as u
+// `tick` ""quote"" 'q'
+//	t
+{ 00 :// packet A { u8 x, }
+i64_ ,  [ 007, 007, ""a\\"",
+7
+,
+3
+    // a // b
+    , ""a\\"" ,
+""\" ++ [233]%N ++ runes_of_ascii """ // c
+,	""packet"" ] : trueish, 4294967296
+:x_y_z ,
+1 : options1
+""CRC32""
+    // `tick` ""quote"" 'q'
+    :
+    Header , [
+// " ++ [27880; 37322]%N ++ runes_of_ascii "
+/// triple
+""" ++ [233]%N ++ runes_of_ascii "t" ++ [233]%N ++ runes_of_ascii """	] : msg_type },
+    Z9_ crc ,
+zchar[007 ] options1 @lengthOf(	MetaDataX) `say ""hi""`, }
+packet charz {A
+{ f32a
+pack
+,	} , int64// trailing space 
+u
+,	@leftPad (
+    ' '
+) string chars`{ , }` ,match charz
+    as calculatedFrom {""packet"":	x ,},
+    options1
+stringy , @lengthOf(  i8i8
+//
+//x
+)	zchar[
+    10 ] //x
+float ,	@leftPad ( )@lengthOf( T ) zchar[ // c
+7 ]packetx`crlf
+line`, match Packet
+    // a // b
+    as Pad
+{ 1	: charz,
+} , packetx @lengthOf(
+    zchar )
+,
+@tag(007)@lengthOf( lengthOf
+    ) match
+string_// " ++ [27880; 37322]%N ++ runes_of_ascii "
+as	Header { 4294967296 :u128
+    }  ,
+} options	{ _x // `tick` ""quote"" 'q'
+= 1 ; BodyLength = 0
+    f32a = // " ++ [27880; 37322]%N ++ runes_of_ascii "
+u8 Pad
+=""\" ++ [233]%N ++ runes_of_ascii """ ;
+//
+// @lengthOf(
+}")).
+Eval vm_compute in ("<<<M3574>>>" ++ check (runes_of_ascii "packet charz 
+  // @lengthOf(
+	  //
+{  char[3  ]
+
+Packet@lengthOf(	pack 
+)
+
+,
+	match
+	falsey
+	as	Packet
+
+    { [  ""abc"" ,0  // `tick` ""quote"" 'q'
+    , ""x y""
+	//x
+  // " ++ [128512]%N ++ runes_of_ascii " emoji
+]:crc,""a\""b""
+:
+
+    leftPad
+
+, ""a\""b"" :
+
+    options1 , """ ++ [28040; 24687]%N ++ runes_of_ascii """ : repeatCount, 65535
+
+    :
+x_y_z ,} ,msg_type
+
+    {
+u64 Logon	,  stringy
+	@calculatedFrom( ""it's""  ) `crlf
+line` ,
+} ,
+    //x
+  //
+	@lengthOf(
+	rootA )
+char[ 42 	 // trailing space 
+
+	]
+    rootA
+`line1
+line2` 
+,  }
+
+MetaData
+
+rootA // trailing space 
+	  { }
+packet  MetaDataX {@lengthOf(	packetx	// @lengthOf(
+
+)As `100% of %d`
+,
+	@lengthOf( matchKey
+    )repeat  Logon 	 // c
+	  {
+	MetaDataX @lengthOf( trueish),  uint8
+    asx
+    @calculatedFrom( ""\" ++ [233]%N ++ runes_of_ascii """ ) ,	metadata 
+        //	t
+      { 
+uint8x 
+, //
+match Logon
+as
+
+    string_ 
+{// 50% %s
+	[42 ,  0 ] 
+: float
+	,}
+,
+	}
+    ,
+
+uint16 falsey // " ++ [27880; 37322]%N ++ runes_of_ascii "
+      @lengthOf(matchKey ) `line1
+line2`,}  , 
+@lengthOf(  u8x
+	)char[	7 // a // b
+  ]  asx @lengthOf( 	 // a // b
+      Logon)
+
+    `" ++ [233]%N ++ runes_of_ascii "`
+    , 
+repeat
+Packet
+    crc	,
+    @tag( 10  )
+
+    @leftPad
+( ' '
+)
+    @lengthOf(
+As 
+)Foo
+chars ,
+
+@calculatedFrom(
+
+    """")
+i64
+
+    u /// triple
+  ,
+    string f32a `it's`
+,
+
+float64
+	x `" ++ [28040; 24687; 31867; 22411]%N ++ runes_of_ascii "`,
+	u16 roots
+
+    ,
+/// triple
+  //	t
+    }  options {
+int
+    =	4294967296 u8x
+= false ; }
+")).
+Eval vm_compute in ("<<<M3470>>>" ++ check (runes_of_ascii "options {
+    // c1
+LittleEndian // c2
+= // c3
+false ;
+    // c5
+ArrayPrefixLenType // c6
+= u8 // c8a
+  // c8b
+;
+    // c9
+}
+    // c10
+packet // c11a
+  // c11b
+Reject // c12
+{ int8 x // c15
+, } packet Trade // c19
+{ zchar[
+    // c21
+4 // c22a
+  // c22b
+] // c23a
+  // c23b
+msgKind // c24a
+  // c24b
+,
+    // c25
+}
+    // c26
+root // c27a
+  // c27b
+packet // c28
+Leg {
+    // c30
+repeat
+    // c31
+i64 // c32a
+  // c32b
+Note // c33
+, u8 // c35
+venue // c36
+, // c37a
+  // c37b
+@leftPad ( // c39
+'0' // c40
+)
+    // c41
+char[
+    // c42
+6 // c43a
+  // c43b
+] // c44a
+  // c44b
+Qty // c45a
+  // c45b
+,
+    // c46
+@rightPad ( '\x00' ) char[ // c51a
+  // c51b
+12
+    // c52
+] // c53a
+  // c53b
+count // c54
+, repeat // c56a
+  // c56b
+Reject
+    // c57
+, repeat
+    // c59
+char[
+    // c60
+3 ] // c62a
+  // c62b
+Px
+    // c63
+, // c64a
+  // c64b
+u16
+    // c65
+lastPx
+    // c66
+, // c67a
+  // c67b
+u16 Acct
+    // c69
+@lengthOf( // c70a
+  // c70b
+Body ) // c72a
+  // c72b
+, // c73
+match // c74
+lastPx // c75a
+  // c75b
+as
+    // c76
+Body // c77
+{ // c78
+104
+    // c79
+: // c80a
+  // c80b
+Reject // c81
+, // c82
+61 : Trade
+    // c85
+, // c86a
+  // c86b
+} // c87a
+  // c87b
+, // c88
+} ")).
+Eval vm_compute in ("<<<M4275>>>" ++ check (runes_of_ascii "packet crc {
+    repeat zchar[7] Foo,
+    repeat u64 pack `u8 x,`,
+    u8x {
+        char[] charz @lengthOf(i8i8),
+        repeat crc,
+        metadata {
+            charz,
+            options1 string_ `crlf
+                        line`,
+        },
+        char[255] trueish,
+    },
+    @lengthOf(As)
+    @tag(65535)
+    u64 i64_ `it's`,
+    len {
+        metadata {
+            zchar[00] trueish,// c
+        },
+        zchar[65535] chars,
+        match string_ as int {
+            65535 : metadata,
+            """ ++ [128512]%N ++ runes_of_ascii """ : u,
+            [3, 3] : As,
+            42 : int,
+            1 : o,
+        },
+        // " ++ [128512]%N ++ runes_of_ascii " emoji
+        // @lengthOf(
+    },
+    @calculatedFrom(""a\""b"")
+    char[65535] _x `
+        `,
+    @calculatedFrom(""1"")
+    u128 rootA,// packet A { u8 x, }
+    int64 i64_ @lengthOf(charz) `crlf
+        line`,
+    repeat roots,
+    @lengthOf(_x)
+    float @calculatedFrom(""x y"") `doc`,
+}
+
+root packet packetx {
+    @rightPad()
+    repeat u64 uint8x,
+    @calculatedFrom("""")
+    @calculatedFrom(""" ++ [233]%N ++ runes_of_ascii "t" ++ [233]%N ++ runes_of_ascii """)
+    i32 pack,
+    repeat f64 T `say ""hi""`,
+}
+
+MetaData Logon {
+    u8x Foo,
+    char[65535] int,
+}")).
+Eval vm_compute in ("<<<M239>>>" ++ check (runes_of_ascii "root packet charz
+    {
+o A , } root packet charz
+{char[] repeatCount  @lengthOf(  tag )	`line1
+line2` , repeat pack`two words`
+,	T { // packet A { u8 x, }
+string rootA @calculatedFrom( ""{,}"" ) ,}, repeat
+// " ++ [27880; 37322]%N ++ runes_of_ascii "
+// " ++ [128512]%N ++ runes_of_ascii " emoji
+As Foo ,
+// packet A { u8 x, }
+// c
+char[
+    3 ]trueish , @calculatedFrom( """"  ) @lengthOf( metadata )
+@leftPad (
+    '0' )  repeat u64 float`u8 x,`
+, stringy{ metadata {//x
+u8 f32a
+// c
+// " ++ [27880; 37322]%N ++ runes_of_ascii "
+`" ++ [28040; 24687; 31867; 22411]%N ++ runes_of_ascii "`, repeat char[
+    /// triple
+    007
+    ] f32a`two words`,  } , asx , float64
+i8i8
+    ,
+//x
+// packet A { u8 x, }
+} , match lengthOf
+as zchar {	00 // c
+:
+o
+,
+}, }options // packet A { u8 x, }
+{
+tag
+    =65535;
+/// triple
+// 50% %s
+float = 0}	packet T {
+repeat
+    // 50% %s
+    x_y_z o
+`it's` ,A { Pad@calculatedFrom(	""\n"" ),	zchar[00
+    ]i64_
+@lengthOf( Z9_ )
+`u8 x,` ,
+u64 u8x
+@calculatedFrom(
+    // trailing space 
+    ""it's"" )
+, }
+, match
+Header as f32a { [
+    1
+    , // " ++ [27880; 37322]%N ++ runes_of_ascii "
+0123456789  ] : int } , // packet A { u8 x, }
+char[]
+    roots @calculatedFrom("""" )`say ""hi""` ,
+    @leftPad ( ) a1 chars , }
+//	t
+")).
+Eval vm_compute in ("<<<M941>>>" ++ check (runes_of_ascii "MetaData falsey { } root packet
+trueish /// triple
+{
+repeat uint32 leftPad ,
+    char[ 4294967296 ]len
+@calculatedFrom( """ ++ [128512]%N ++ runes_of_ascii """ )`doc`  , @lengthOf(
+packetx)	repeat int16 // `tick` ""quote"" 'q'
+roots `u8 x,`
+,@rightPad(  ' '/// triple
+) repeat char[ 00 ]
+MetaDataX , x
+    @calculatedFrom(
+""`tick`""
+    ),float64
+    lengthOf `{ , }` // trailing space 
+,
+@lengthOf(i64_ )int16 calculatedFrom // c
+@lengthOf( u	), } packet stringy
+{ i64_
+`tab	here`
+,
+rootA
+    Z9_ ,
+string
+    Pad
+@calculatedFrom(// `tick` ""quote"" 'q'
+""// no comment""
+    )	`a\`, @rightPad ( '\x00') @calculatedFrom(""{,}"" ) @calculatedFrom( ""CRC32"" ) falsey
+    `doc`,  match Logon as tag	{3: f32a, ""abc""  : o,255: A
+""abc"" : leftPad , },
+@calculatedFrom(
+// @lengthOf(
+// " ++ [128512]%N ++ runes_of_ascii " emoji
+""" ++ [233]%N ++ runes_of_ascii "t" ++ [233]%N ++ runes_of_ascii """ // packet A { u8 x, }
+)repeat
+u32
+//
+// " ++ [27880; 37322]%N ++ runes_of_ascii "
+_x
+`100% of %d`
+    , zchar[ 42 ] body `{ , }`,
+    zchar[
+//x
+// a // b
+10//x
+]	u128	`u8 x,`	, int @calculatedFrom(
+    /// triple
+    ""abc""  ) ,repeat
+    options1
+    // trailing space 
+    , }
+")).
+Eval vm_compute in ("<<<M3696>>>" ++ check (runes_of_ascii "
+packet
+	stringy {  @leftPad 
+()  /// triple
+@leftPad 	 // @lengthOf(
+    ( 
+'0'	) string string_ , }
+options {  //x
+	}
+    root
+packet chars//x
+		{ @tag( 1 ) @tag(
+00)  // " ++ [128512]%N ++ runes_of_ascii " emoji
+rootA	,
+@calculatedFrom(
+""abc""  )x_y_z
+, repeat	chars
+{uint8x
+
+@calculatedFrom( ""CRC32""
+    )
+
+`// not a comment` , match  a1
+	as
+
+lengthOf	//x
+
+  {
+""// no comment""  //	t
+  :  // a // b
+  packetx
+
+    ,
+},
+	uint64 int
+    `100% of %d` ,
+
+zchar[
+
+42]
+Packet
+
+    `two words`
+,
+    } 
+        //x
+, @leftPad (	'0'
+	)
+	    // " ++ [128512]%N ++ runes_of_ascii " emoji
+  // " ++ [128512]%N ++ runes_of_ascii " emoji
+  	@leftPad
+	(
+	)  @leftPad (
+    )
+
+    leftPad
+
+    {
+repeat i8 roots, 
+i16
+
+float
+	@lengthOf(	string_	)	// " ++ [128512]%N ++ runes_of_ascii " emoji
+, 
+repeat
+	Logon
+
+    msg_type,
+    repeat x
+
+    { repeat zchar[
+
+3  ] _x`two words` ,
+string i8i8	`u8 x,`,  i32 float @calculatedFrom(""\" ++ [233]%N ++ runes_of_ascii """
+)// c
+    ,
+} 	 // " ++ [27880; 37322]%N ++ runes_of_ascii "
+    ,
+
+} , 	 // c
+
+repeat
+
+    uint64 
+i64_
+	,
+string options1 , 
+char[ 
+1]
+
+    i8i8 , 
+}// @lengthOf(
+ 
+")).
+Eval vm_compute in ("<<<M4038>>>" ++ check (runes_of_ascii "root packet msg_type {
+}
+
+packet calculatedFrom {
+    // " ++ [128512]%N ++ runes_of_ascii " emoji
+    // " ++ [27880; 37322]%N ++ runes_of_ascii "
+    repeat int32 Pad,
+    //
+}
+
+MetaData Header {
+    char[65535] As,
+    char[65535] A `tab	here`,
+    //
+    char[0] metadata,
+    string Pad,
+}
+
+options {
+    crc = ""a\""b"";
+    options1 = ""// no comment"";
+}
+
+packet Pad {
+    repeat u8 i64_,
+    @tag(255)
+    i64 BodyLength,
+    @tag(0)
+    repeat BodyLength u `doc`,
+    match BodyLength as zchar {
+        65535 : metadata,
+        00 : MetaDataX,
+        7 : roots,
+        """" : As,
+        007 : _x,
+        [
+            """ ++ [233]%N ++ runes_of_ascii "t" ++ [233]%N ++ runes_of_ascii """, ""it's"", 3, """ ++ [128512]%N ++ runes_of_ascii """, 3,
+            007
+        ] : stringy,
+    },
+    repeat tag float,// packet A { u8 x, }
+    @tag(0)
+    @rightPad('0')
+    repeat Z9_ {
+        char[] lengthOf @calculatedFrom(""\" ++ [233]%N ++ runes_of_ascii """) `100% of %d`,
+        repeat zchar[255] i8i8 `u8 x,`,
+        repeat i16 falsey ``,
+        char[10] stringy,
+    },
+    u16 int,
+}")).
+Eval vm_compute in ("<<<M3464>>>" ++ check (runes_of_ascii "// top
+options // c0a
+  // c0b
+{ // c1a
+  // c1b
+LittleEndian
+    // c2
+=
+    // c3
+true // c4a
+  // c4b
+; FixedStringPadChar // c6a
+  // c6b
+= // c7a
+  // c7b
+'0' // c8a
+  // c8b
+; // c9a
+  // c9b
+} // c10
+packet
+    // c11
+Heartbeat { zchar[ // c14a
+  // c14b
+5 // c15a
+  // c15b
+] // c16
+sym
+    // c17
+, // c18a
+  // c18b
+repeat // c19a
+  // c19b
+char[ // c20a
+  // c20b
+3 ] // c22a
+  // c22b
+OrderId , } root
+    // c26
+packet
+    // c27
+Quote { u64 lastPx // c31a
+  // c31b
+, repeat u8 venue
+    // c35
+,
+    // c36
+Heartbeat
+    // c37
+, // c38
+InSym1 // c39
+{ // c40a
+  // c40b
+char[ // c41
+3
+    // c42
+]
+    // c43
+Acct // c44a
+  // c44b
+, // c45a
+  // c45b
+char[]
+    // c46
+lastPx ,
+    // c48
+Heartbeat // c49a
+  // c49b
+,
+    // c50
+repeat // c51a
+  // c51b
+string x // c53a
+  // c53b
+, // c54a
+  // c54b
+} // c55a
+  // c55b
+, }
+    // c57
+")).
+Eval vm_compute in ("<<<M3480>>>" ++ check (runes_of_ascii "
+options {  ArrayPrefixLenType
+    =  u64 ;	FixedStringPadFromLeft	=
+false
+	;
+	}packet
+	Trade { }
+	packet
+Reject {
+
+    InPx94 {	repeat
+Trade
+
+, string
+
+    count
+, 
+InFlags14	{	u8
+    pad0,}
+
+    ,repeat 
+InSide239 { 
+char[ 8
+
+    ]lastPx
+
+,
+	repeat
+i64
+clOrdID,
+	i64 Acct,
 
     }
+    ,
+    },
+
+repeat
+	string
+clOrdID
+
+    ,
+
+    zchar[
+
+    5
+
+] sym  ,}
+packet
+    Quote
+{ repeat 
+Reject  ,
+}packet  Logon
+{repeat
+Reject
+    ,
+	char[]Acct,
+@leftPad ( 
+'0' )
+char[	4	] tag7  ,} root packet
+    Fill	{
+	@rightPad	(
+	'0' 
+)
+	char[
+	1
+
+]
+
+    count 
+,
+u8
+
+    f1 ,u32
+
+    Qty	@lengthOf(
+Body )
+
+    ,  match
+
+    f1 as
+
+    Body
+
+    {
+[
+
+    195, 3 ]: Reject
+
+,110 :Quote,
+	141
+	:
+	Logon  ,
+	21 :Trade
+
+,
+}
+
+    ,
+u32
+	Flags
+
+    @calculatedFrom(""CRC32""
+)
+,}
 ")).
-Eval vm_compute in ("<<<M504>>>" ++ check (runes_of_ascii "root packet tag { }  packet packet MetaDataX{char[007	]
-// c
+Eval vm_compute in ("<<<M247>>>" ++ check (runes_of_ascii "packet As
+{
+    MetaDataX  crc,repeat char[] BodyLength,
+    repeat
+i8 Pad
+    //x
+    `
+`
+    , u8// trailing space 
+pack @lengthOf( Foo ) `say ""hi""` , @tag( 0123456789
+) float {i32
+    falsey , } ,  match // c
+roots as // a // b
+Packet{
+""`tick`""
+    :
+float
+,  10 :	body [ 7,00 , // " ++ [27880; 37322]%N ++ runes_of_ascii "
+7 ,
+// 50% %s
 /// triple
-asx  @calculatedFrom( ""a\""b""
-) `say ""hi""`// " ++ [27880; 37322]%N ++ runes_of_ascii "
-,  @tag(4294967296 )
-    char[1//x
-] packetx @calculatedFrom(""a\""b""
-    ) ,
-// " ++ [128512]%N ++ runes_of_ascii " emoji
-// a // b
-@calculatedFrom(""" ++ [233]%N ++ runes_of_ascii "t" ++ [233]%N ++ runes_of_ascii """  ) repeat pack // " ++ [27880; 37322]%N ++ runes_of_ascii "
+3 ,  """ ++ [233]%N ++ runes_of_ascii "t" ++ [233]%N ++ runes_of_ascii """ , 65535
 ,
-    } // c")).
-Eval vm_compute in ("<<<M658>>>" ++ check (runes_of_ascii "root packet tag { }  packet MetaDataX{char[007	]
-// c
+""\n"" ] : crc/// triple
+, } ,uint16 metadata ,
+    }
+    MetaData
+    // `tick` ""quote"" 'q'
+    options1 {
+// 50% %s
+//
+char[
+// @lengthOf(
+// packet A { u8 x, }
+65535 ] roots `crlf
+line`
+,	i16  MetaDataX , }
+    // @lengthOf(
+    options
+{ repeatCount = char;
+charz=
+    false rootA=
+    255  ; packetx
+//x
+// packet A { u8 x, }
+= '\x00' ; } options// " ++ [128512]%N ++ runes_of_ascii " emoji
+{ Foo =  '\x00'; uint8x = true
+; x_y_z =  7 //
+; } packet Logon{ }")).
+Eval vm_compute in ("<<<M145>>>" ++ check (runes_of_ascii "
+root
+packet
+crc {u32 metadata
+, As  falsey//x
+`crlf
+line` , repeatCount { repeat x_y_z //	t
+{
+repeat zchar
+    crc `u8 x,`
 /// triple
-asx  @calculatedFrom( ""a\""b""
-) `say ""hi""`// " ++ [27880; 37322]%N ++ runes_of_ascii "
-,  @tag(4294967296 )
-    char[1//x
-] packetx @calculatedFrom(""a\""b""
-    ) ,
-// " ++ [128512]%N ++ runes_of_ascii " emoji
-// a // b
-@calculate'1'dFrom(""" ++ [233]%N ++ runes_of_ascii "t" ++ [233]%N ++ runes_of_ascii """  ) repeat pack // " ++ [27880; 37322]%N ++ runes_of_ascii "
+// @lengthOf(
 ,
-    } // c")).
-Eval vm_compute in ("<<<M585>>>" ++ check (runes_of_ascii "root packet tag { }  packet MetaDataX{char[007	]
+    // trailing space 
+    } ,	char[] MetaDataX @lengthOf( Foo )
+    `" ++ [28040; 24687; 31867; 22411]%N ++ runes_of_ascii "`
+    , } , } root packet len
+    { }
+packet//x
+roots  { @tag(
+    007 )rootA
+{
+    u32
+Z9_ `doc` ,  } , repeat rootA, @tag( 1
+) @lengthOf(
+//	t
+// 50% %s
+rootA	)  u64 packetx // trailing space 
+,
+repeat f64
+    u8x ,f32 string_ `two words` , char[ 4294967296// @lengthOf(
+]  charz @calculatedFrom(
+""CRC32""	), char[]options1 , char[ 42 //
+] // a // b
+Logon @calculatedFrom(
 // c
-/// triple
-asx  @calculatedFrom( ""a\""b""
-) `say ""hi""`// " ++ [27880; 37322]%N ++ runes_of_ascii "
-,  @tag(4294967296 )
-    char[ ]//x
-1 packetx @calculatedFrom(""a\""b""
-    ) ,
-// " ++ [128512]%N ++ runes_of_ascii " emoji
-// a // b
-@calculatedFrom(""" ++ [233]%N ++ runes_of_ascii "t" ++ [233]%N ++ runes_of_ascii """  ) repeat pack // " ++ [27880; 37322]%N ++ runes_of_ascii "
-,
-    } // c")).
-Eval vm_compute in ("<<<M590>>>" ++ check (runes_of_ascii "root packet tag { }  packet MetaDataX{char[007	]
-// c
-/// triple
-asx  @calculatedFrom( ""a\""b""
-) `say ""hi""`// " ++ [27880; 37322]%N ++ runes_of_ascii "
-,  @tag(4294967296 )
-    char[1//x
-packetx ] @calculatedFrom(""a\""b""
-    ) ,
-// " ++ [128512]%N ++ runes_of_ascii " emoji
-// a // b
-@calculatedFrom(""" ++ [233]%N ++ runes_of_ascii "t" ++ [233]%N ++ runes_of_ascii """  ) repeat pack // " ++ [27880; 37322]%N ++ runes_of_ascii "
-,
-    } // c")).
-Eval vm_compute in ("<<<M626>>>" ++ check (runes_of_ascii "root packet tag { }  packet MetaDataX{char[007	]
-// c
-/// triple
-asx  @calculatedFrom( ""a\""b""
-) `say ""hi""`// " ++ [27880; 37322]%N ++ runes_of_ascii "
-,  @tag(4294967296 )
-    char[1//x
-] packetx @calculatedFrom(""a\""b""
-    ) ,
-// " ++ [128512]%N ++ runes_of_ascii " emoji
-// a // b
-@calculatedFrom(i32  ) repeat pack // " ++ [27880; 37322]%N ++ runes_of_ascii "
-,
-    } // c")).
-Eval vm_compute in ("<<<M1515>>>" ++ check (runes_of_ascii "packet P1 {
-    u8 a,
+// @lengthOf(
+""" ++ [233]%N ++ runes_of_ascii "t" ++ [233]%N ++ runes_of_ascii """)
+    `tab	here`,@rightPad
+    ( // @lengthOf(
+' '  )match matchKey as packetx	{ 007 // trailing space 
+: len , }	,
 }
+")).
+Eval vm_compute in ("<<<M500>>>" ++ check (runes_of_ascii "MetaData int { int zchar  , }packet
+    string_	{ }
+packet len { float@lengthOf( Z9_
+    ),
+    } root packet int {
+    uint64 i64_
+    , @lengthOf( Logon ) string
+float ,
+Header
+o ,
+@tag( 7 ) match Pad as  u128
+    // " ++ [27880; 37322]%N ++ runes_of_ascii "
+    { 0: BodyLength
+,},
+    int64 float
+    @lengthOf(i64_
+)	,	repeat
+//x
+// 50% %s
+string// " ++ [128512]%N ++ runes_of_ascii " emoji
+packetx
+, @leftPad (  ' ' ) @lengthOf(
+stringy ) @calculatedFrom( ""CRC32"") repeat metadata pack ,
+    // c
+    @lengthOf( Foo
+    ) a1
+    //	t
+    , } packet pack {	@tag(// " ++ [128512]%N ++ runes_of_ascii " emoji
+7 )
+zchar[ 255 ] body @calculatedFrom( ""// no comment"" ), repeat zchar[ 255 ]
+    metadata, char[ 42
+] i8i8
+@calculatedFrom(
+    ""packet"" )`two words` , Foo@calculatedFrom( """ ++ [28040; 24687]%N ++ runes_of_ascii """) `tab	here`
+, }
+")).
+Eval vm_compute in ("<<<M3635>>>" ++ check (runes_of_ascii "  packet chars{ char
+    options1
+, } 
+
+// @lengthOf(
+		packet
+tag {
+match 
+msg_type
+    as
+leftPad {
+42:options1 ,
+	""""
+:
+rootA  7	:
+
+    asx
+	,[	10
+    ,
+	""a\\""
+
+    , 
+""a\""b""
+,
+007 
+, 00,
+    ""a	b""  ] :
+
+Logon ,	007 
+:
+	calculatedFrom
+
+, 
+[255
+	, 
+    // `tick` ""quote"" 'q'
+    10 
+
+// " ++ [27880; 37322]%N ++ runes_of_ascii "
+	  //x
+    ,	//
+	0
+,
+1
+,  """ ++ [233]%N ++ runes_of_ascii "t" ++ [233]%N ++ runes_of_ascii """
+	,
+""" ++ [233]%N ++ runes_of_ascii "t" ++ [233]%N ++ runes_of_ascii """]  :
+
+    repeatCount} ,string matchKey, 
+@calculatedFrom(
+"""" )
+	repeat
+	int64 repeatCount 
+`line1
+line2`
+	,
+}
+
+    MetaData
+
+    trueish{
+char[] 
+Foo
+    ,
+float
+	matchKey  , // " ++ [128512]%N ++ runes_of_ascii " emoji
+  float32  Header ,BodyLength matchKey ,
+    // `tick` ""quote"" 'q'
+	// trailing space 
+      i64
+T
+	,
+Pad  
+  // c
+
+	//
+  	int 
+`a\`
+,	}
+")).
+Eval vm_compute in ("<<<M878>>>" ++ check (runes_of_ascii "
+options {BodyLength = false ;o=string
+    ; falsey = true Header =char[ 42	] ; // @lengthOf(
+pack =00;
+}
+    root
+    packet T	{ }
+packet i8i8{match body as MetaDataX
+/// triple
+// @lengthOf(
+{7 :
+    lengthOf ,
+} ,} root packet msg_type {
+char[]len , // c
+@calculatedFrom(
+    // a // b
+    ""abc""
+    ) i64 //
+tag @lengthOf(
+    int) `doc` ,// @lengthOf(
+@tag(
+    //x
+    0// " ++ [27880; 37322]%N ++ runes_of_ascii "
+) match x
+as leftPad	{ // " ++ [27880; 37322]%N ++ runes_of_ascii "
+""{,}"" :
+zchar ""abc""
+//
+// c
+:u128// trailing space 
+,	""" ++ [128512]%N ++ runes_of_ascii """ : float,
+    //
+    [ ""x y""  , 10 , // a // b
+""`tick`"" , 3 ,	7]: Packet ""`tick`"":calculatedFrom , } ,
+}MetaData // 50% %s
+Pad {i8 charz ,
+uint8x// trailing space 
+leftPad `" ++ [233]%N ++ runes_of_ascii "` , }")).
+Eval vm_compute in ("<<<M4455>>>" ++ check (runes_of_ascii "// a // b
+MetaData
+T
+{ 
+    // @lengthOf(
+// trailing space 
+  Foo
+
+Logon	,
+
+Logon lengthOf
+
+, char[
+00
+]
+    //
+
+  // @lengthOf(
+    pack  ,
+    char[  7 	 //
+
+  ]
+    // " ++ [128512]%N ++ runes_of_ascii " emoji
+	i8i8`line1
+line2`	, 
+}	packet
+    trueish // trailing space 
+      {
+
+    @calculatedFrom( 
+""abc"" )@leftPad	(
+	'0'
+    )@lengthOf(	trueish )uint8x, 
+match
+
+x as Packet//
+
+  {	// a // b
+  	""" ++ [128512]%N ++ runes_of_ascii """
+
+    :repeatCount , [
+007 ,  255, //x
+4294967296
+, 255 	 // a // b
+    ,""" ++ [28040; 24687]%N ++ runes_of_ascii """
+
+, ""\n"" 	 // a // b
+
+, ""\" ++ [233]%N ++ runes_of_ascii """, 
+""abc""
+
+    ]
+:
+A ,
+""abc"": packetx
+,  }
+, @tag(
+	7 
+)
+
+    @lengthOf(
+
+    msg_type
+) @tag(  00
+) int
+
+pack
+    `" ++ [28040; 24687; 31867; 22411]%N ++ runes_of_ascii "`
+
+, 
+}
+// a // b
+")).
+Eval vm_compute in ("<<<M3742>>>" ++ check (runes_of_ascii "packet packetx {
+    @calculatedFrom(""`tick`"")
+    // @lengthOf(
+    uint8x @calculatedFrom(""{,}"") `it's`,
+}
+
+options {
+    msg_type = char[10]
+    BodyLength = char[255]
+    Z9_ = ""a	b""
+}
+
+options {
+    x_y_z = ' ';
+}
+
+packet u {
+    char[] BodyLength,
+    uint32 Header @lengthOf(packetx),
+    As Header,
+    @calculatedFrom(""// no comment"")
+    @lengthOf(uint8x)
+    match u128 as matchKey {
+        [3, ""\" ++ [233]%N ++ runes_of_ascii """, ""\" ++ [233]%N ++ runes_of_ascii """] : calculatedFrom,
+        0123456789 : o,
+        10 : rootA,
+    },//
+    zchar[0123456789] BodyLength @lengthOf(repeatCount),
+}
+
+packet leftPad {
+    @tag(007)
+    repeat string packetx,
+}")).
+Eval vm_compute in ("<<<M3529>>>" ++ check (runes_of_ascii "packet	x_y_z
+{ 
+@tag(
+
+00  // @lengthOf(
+	)i16 
+packetx , 
+string  stringy @lengthOf(u
+
+    ),repeat packetx ,
+@rightPad (	'\x00'
+	)	@tag(
+
+007
+)	uint64
+    f32a
+
+    @lengthOf(
+
+    asx
+
+    ),
+	msg_type @calculatedFrom( 
+""a\""b"" ), string_@lengthOf(	packetx
+),char[]calculatedFrom , @lengthOf(
+
+msg_type
+) @calculatedFrom(
+"""" 
+)
+	@rightPad
+(
+    '0')rootA	,@leftPad (  ' '
+
+)
+	match
+
+_x  as	string_  {00
+
+: chars , 
+} ,
+
+u32
+	Z9_ `" ++ [233]%N ++ runes_of_ascii "`  ,	} 
+MetaData i64_
+
+    //
+//x
+      { u8x	//	t
+  Logon
+    , 
+char	Z9_	,char[]Packet  `u8 x,`
+	, char[
+	10 ] // a // b
+options1
+,
+}
+")).
+Eval vm_compute in ("<<<M4223>>>" ++ check (runes_of_ascii "options {
+    o = ""packet""
+    body = true
+    tag = char[7];
+    rootA = """"
+    Foo = string;
+}
+
+MetaData zchar {
+    int16 falsey `// not a comment`,//	t
+    char[] u128,
+    f64 leftPad `
+        `,
+}
+
+packet metadata {
+    string repeatCount,
+    o {
+        match leftPad as lengthOf {
+            [0123456789, ""1""] : x_y_z,
+            [""" ++ [128512]%N ++ runes_of_ascii """] : i8i8,
+            [""a\""b"", ""a	b""] : Foo,
+            [""\" ++ [233]%N ++ runes_of_ascii """] : Pad,
+            [
+                ""a	b"", 42, """ ++ [233]%N ++ runes_of_ascii "t" ++ [233]%N ++ runes_of_ascii """, 3, """ ++ [28040; 24687]%N ++ runes_of_ascii """,
+                00, 7
+            ] : packetx,
+            42 : falsey,
+        },
+    },
+}")).
+Eval vm_compute in ("<<<M1249>>>" ++ check (runes_of_ascii "packet _x
+    {string lengthOf  `two words` , @rightPad  (	)uint32 calculatedFrom , @lengthOf(
+float )
+    len leftPad ,i32 A ,
+@lengthOf( i64_
+    )	options1 @lengthOf(u) `" ++ [28040; 24687; 31867; 22411]%N ++ runes_of_ascii "`
+// 50% %s
+// 50% %s
+,@tag( 1
+    )
+@tag(//
+7 ) @calculatedFrom( ""a	b"" )match Z9_ as
+crc{ [65535
+    , 255
+,
+    """"
+    ,
+    4294967296
+    ,
+    007 ] : u128 ,
+42 :int , [ 0  ]: i8i8 """ ++ [128512]%N ++ runes_of_ascii """
+    // c
+    :	Foo ,
+[ 4294967296
+] :float , 255// packet A { u8 x, }
+: Foo
+, } , options1`it's`
+, char[] matchKey  @calculatedFrom(	""1"" )  `
+`	, uint16
+    a1`it's` , }
+
+")).
+Eval vm_compute in ("<<<M118>>>" ++ check (runes_of_ascii "packet crc{
+    } packet pack {repeat _x Foo // `tick` ""quote"" 'q'
+,@lengthOf( string_
+    )
+    @rightPad ( ) @calculatedFrom( ""\n"")
+charz  { char[ 42 ]
+a1 , //x
+repeat T // `tick` ""quote"" 'q'
+{ repeat zchar[ 3
+    ] T , } , match  i64_  as	trueish { ""`tick`""
+:
+/// triple
+// packet A { u8 x, }
+trueish , [""" ++ [233]%N ++ runes_of_ascii "t" ++ [233]%N ++ runes_of_ascii """, 0123456789] : Foo
+,
+    """"
+    :
+    x_y_z [ ""\" ++ [233]%N ++ runes_of_ascii """ // trailing space 
+, 3
+, ""a	b"" , ""\" ++ [233]%N ++ runes_of_ascii """
+    ,
+""x y""
+    , ""1"" , ""a	b""
+, ""CRC32"" ] : asx [
+    255 ] : leftPad  ,
+42 :
+    u8x
+, }
+    , } ,
+    o ,}
+")).
+Eval vm_compute in ("<<<M3239>>>" ++ check (runes_of_ascii "// top
+packet
+    // c0
+roots // c1
+{ // c2
+@lengthOf( // c3
+Pad
+    // c4
+) char[ // c6
+4294967296
+    // c7
+]
+    // c8
+options1 @calculatedFrom(
+    // c10
+""`tick`""
+    // c11
+)
+    // c12
+,
+    // c13
+lengthOf // c14a
+  // c14b
+, // c15
+@tag(
+    // c16
+7 ) // c18
+repeat
+    // c19
+T
+    // c20
+, // c21
+@calculatedFrom( // c22a
+  // c22b
+""a	b""
+    // c23
+) // c24a
+  // c24b
+char[] // c25a
+  // c25b
+Packet
+    // c26
+@lengthOf(
+    // c27
+_x ) // c29a
+  // c29b
+`doc` // c30
+, // c31
+} ")).
+Eval vm_compute in ("<<<M3999>>>" ++ check (runes_of_ascii "// top
+packet P1 {
+    // c2
+    u8 a,// c5
+}
+
 packet P2 {
+    // c9
     P1,
-}
+    // c11
+}// c12
+
 packet P3 {
     P2,
-    P1,
+    // c17
+    P1,// c19
 }
+
+// c20
 packet P4 {
+    // c23a
+    // c23b
     repeat P3,
-    P2,
+    P2,// c28a
+    // c28b
 }
+
 root packet P5 {
-    P4,
+    // c33
+    P4,// c35
     P3,
     P1,
-    u8 K,
+    u8 K,// c42
     match K as Body {
+        // c47a
+        // c47b
         4 : P4,
         3 : P3,
         2 : P2,
         1 : P1,
+        // c63
     },
+    // c65
+}// c66")).
+Eval vm_compute in ("<<<M599>>>" ++ check (runes_of_ascii "  packet	Header{
+    @tag(
+    0 )	repeat string_ zchar ,
+char
+    Z9_ @lengthOf( charz)
+    ,char[]Packet ,
+    // c
+    @lengthOf( stringy
+)
+    @tag(7  ) @calculatedFrom( ""`tick`""	)float32 string_`" ++ [233]%N ++ runes_of_ascii "`
+, } MetaData charz
+    {
+int32 string_ ,
+    }
+root
+    packet	int
+{ @calculatedFrom(
+    ""a	b""
+) zchar[
+    65535 ] x_y_z `crlf
+line`
+    , @leftPad (
+) o
+    `" ++ [28040; 24687; 31867; 22411]%N ++ runes_of_ascii "` , uint8
+leftPad@calculatedFrom(
+    """ ++ [128512]%N ++ runes_of_ascii """  ), stringy len //x
+`it's` ,
 }
 ")).
-Eval vm_compute in ("<<<M1469>>>" ++ check (runes_of_ascii "// top
-options // c0a
-  // c0b
-{ FixedStringPadFromLeft
-    // c2
-=
-    // c3
-true
-    // c4
-; // c5
-}
-    // c6
-root packet // c8a
-  // c8b
-P // c9a
-  // c9b
-{ // c10
-char[ // c11
-4
-    // c12
-] z // c14
-, // c15
-} // c16a
-  // c16b
-")).
-Eval vm_compute in ("<<<M1685>>>" ++ check (runes_of_ascii "root packet f32a {
-    trueish falsey,
-    tag,
-    repeat Pad {
-        u32 i8i8 @calculatedFrom(""x y""),
-    },
-    @calculatedFrom(""// no comment"")
-    @lengthOf(calculatedFrom)
-    @tag(65535)
-    string T,
-}")).
-Eval vm_compute in ("<<<M2023>>>" ++ check (runes_of_ascii "options {
-    FixedStringPadChar = '0';
-}
+Eval vm_compute in ("<<<M3765>>>" ++ check (runes_of_ascii "packet charz
 
-packet Q {
-    zchar[4] z,
-    @rightPad('\x00')
-    char[3] n,
-    char[5] d,
-}
-
-root packet R {
-    Q,
-    zchar[8] top,
-    repeat zchar[2] zs,
-}")).
-Eval vm_compute in ("<<<M440>>>" ++ check (runes_of_ascii "packet
-    // `tick` ""quote"" 'q'
-    crc
-// packet A { u8 x, }
-//	t
-{
-u32 a1 ,
-    // trailing space 
-    roots
-charz //
-`two words`,	}
-    MetaData MetaData int {
-} /// triple")).
-Eval vm_compute in ("<<<M395>>>" ++ check (runes_of_ascii "packet
-    // `tick` ""quote"" 'q'
-    crc
-// packet A { u8 x, }
-//	t
-{ {
-u32 a1 ,
-    // trailing space 
-    roots
-charz //
-`two words`,	}
-    MetaData int {
-} /// triple")).
-Eval vm_compute in ("<<<M705>>>" ++ check (runes_of_ascii "root packet len // trailing space 
-{
-// " ++ [27880; 37322]%N ++ runes_of_ascii "
-//	t
-char[10
-] metadata	@lengthOf( x" ++ [178]%N ++ runes_of_ascii " ) `crlf
-line`,
-    @rightPad
-( ' '
-) string
-    Header @calculatedFrom( ""a\\""
-    ), }
-")).
-Eval vm_compute in ("<<<M1609>>>" ++ check (runes_of_ascii "  MetaData
-    u
-	{ BodyLength
-	repeatCount	// packet A { u8 x, }
-
-  , } 
-options  { string_ =
-
-    false;	i8i8
-	=
-    10
-
-    ;}  root
-packet
-    float
-    {  }  //")).
-Eval vm_compute in ("<<<M69>>>" ++ check (runes_of_ascii "options { o =""x y""
-//x
-// trailing space 
-; float
-    = ""\n"" metadata
+{ repeat	As{
+rootA	@calculatedFrom(
+""" ++ [28040; 24687]%N ++ runes_of_ascii """
+	)`crlf
+line` ,
+zchar[ 0 ]	// trailing space 
+	  u8x ,
+	int@lengthOf( u8x	// " ++ [128512]%N ++ runes_of_ascii " emoji
+      )  ,
+	}
+,
+    @rightPad (
+    )  uint32	a1 @calculatedFrom(
+    ""x y"" )
+, 
 // " ++ [128512]%N ++ runes_of_ascii " emoji
-// `tick` ""quote"" 'q'
-=
-    """ ++ [128512]%N ++ runes_of_ascii """;Logon
-//
-//	t
-=
-true
-; i8i8  = string// @lengthOf(
-}")).
-Eval vm_compute in ("<<<M1273>>>" ++ check (runes_of_ascii "// top
-packet // c0a
-  // c0b
-x
-    // c1
-{ @rightPad
-    // c3
-( // c4a
-  // c4b
-) repeat roots
-    // c7
-Logon // c8
-`doc`
-    // c9
-, } // c11a
-  // c11b
+// " ++ [128512]%N ++ runes_of_ascii " emoji
+  }
+
+    packet
+Packet{
+
+@rightPad ( '0'  )
+
+    repeat matchKey `it's`
+
+    , }
+
+    root	packet
+Packet  {
+	u32
+
+    f32a @calculatedFrom(  ""a\\"" 
+)
+`u8 x,`
+    ,  }
 ")).
-Eval vm_compute in ("<<<M2134>>>" ++ check (runes_of_ascii "root packet matchKey {zchar[// c
-  3]pack  @calculatedFrom(	""a	b""
-
-    )
-
-`doc`  , 
+Eval vm_compute in ("<<<M903>>>" ++ check (runes_of_ascii "packet a1{ x@calculatedFrom( ""1""  )  `
+`//x
+,@lengthOf( calculatedFrom )
+    @calculatedFrom(
+    ""it's"") string i64_ @calculatedFrom( """ ++ [128512]%N ++ runes_of_ascii """ ) , int64
+u128 ,
+@lengthOf(
+    As
+    )	matchKey tag,
+}	options{ // trailing space 
+metadata = uint16
+; a1 = float64 f32a = // trailing space 
+char[	00
+    // @lengthOf(
+    ] ;
+// packet A { u8 x, }
+//x
+u =	""" ++ [28040; 24687]%N ++ runes_of_ascii """
+// packet A { u8 x, }
+// trailing space 
+a1
+='0' ;
 }
+")).
+Eval vm_compute in ("<<<M3671>>>" ++ check (runes_of_ascii "packet string_ {
+    // c
+    matchKey @calculatedFrom(""it's""),
+    @tag(65535)
+    char[255] stringy,
+    @leftPad(' ')
+    @rightPad('0')
+    u64 leftPad @calculatedFrom(""abc""),
+    @calculatedFrom(""" ++ [233]%N ++ runes_of_ascii "t" ++ [233]%N ++ runes_of_ascii """)
+    repeat u,
+    match string_ as packetx {
+        ""packet"" : Pad,
+        1 : metadata,
+        ""`tick`"" : a1,
+        // 50% %s
+        """ ++ [128512]%N ++ runes_of_ascii """ : charz,
+    },
+    repeat zchar[10] _x,
+}")).
+Eval vm_compute in ("<<<M3607>>>" ++ check (runes_of_ascii "  MetaData	string_
+	{x 
+charz
 
-    options	{
-	}  MetaData A 
-{ int8 msg_type
+    `say ""hi""`,
+options1 options1
+
+    `line1
+line2`
+	, }packet tag{@lengthOf(zchar)calculatedFrom zchar  , @calculatedFrom(	""`tick`""	) Foo
+    /// triple
+  //
+`tab	here`// trailing space 
+
+,match
+	packetx	/// triple
+
+	as
+
+Pad {[
+// `tick` ""quote"" 'q'
+  // trailing space 
+	""packet""
+
+    , ""a	b"" , """ ++ [233]%N ++ runes_of_ascii "t" ++ [233]%N ++ runes_of_ascii """ ,""abc""
+, 
+255	]
+:falsey } ,
+    } ")).
+Eval vm_compute in ("<<<M4121>>>" ++ check (runes_of_ascii "// top
+options {
+    // c1
+}// c2
+
+root packet u {
+    // c6
+    @rightPad()
+    // c9
+    @tag(42)
+    // c12
+    @calculatedFrom("""")
+    // c15
+    repeat u8 msg_type,// c19
+    @lengthOf(stringy)
+    // c22
+    @leftPad('\x00')
+    // c26
+    @tag(4294967296)
+    // c29
+    A `crlf
+        line`,// c32
+    zchar[1] asx `" ++ [233]%N ++ runes_of_ascii "`,// c38
+    charz,// c40
+}// c41")).
+Eval vm_compute in ("<<<M4371>>>" ++ check (runes_of_ascii "
+options
+	{
+
+    LittleEndian
+
+    =
+true 
+;
+
+    StringPrefixLenType
+=
+u32
+
+;
+
+    FixedStringPadFromLeft
+	= false 
+;
+
+    FixedStringPadChar
+	=
+'0'	;
+
+    }
+packet Party
+
+{ 
+int16 Acct  , } packet
+
+    Quote{	}
+    root packet
+
+Order 
+{ string
+    Side2 
+,
+repeat	string OrderId
+
+,
+repeat string venue
+
+    , Quote , }
+")).
+Eval vm_compute in ("<<<M3677>>>" ++ check (runes_of_ascii "root
+    packet //
+repeatCount {
+	char[]
+	crc  `{ , }` 
+
+    // `tick` ""quote"" 'q'
+
+, 
+T
+{
+i64_
+    // a // b
+    /// triple
+	asx
 	,
 
+}
+	, 
+
+    // " ++ [27880; 37322]%N ++ runes_of_ascii "
+@leftPad  ( '0')
+
+    char[  
+      /// triple
+		00 ]a1	@lengthOf( Logon	)
+    // c
+`it's`
+,@tag(	00
+)
+@calculatedFrom(""" ++ [233]%N ++ runes_of_ascii "t" ++ [233]%N ++ runes_of_ascii """ ) int32	x ,
+
+}root
+packet	tag  {
+
     }")).
-Eval vm_compute in ("<<<M2002>>>" ++ check (runes_of_ascii "packet A {
+Eval vm_compute in ("<<<M1268>>>" ++ check (runes_of_ascii "packet Logon
+{
+    tag @lengthOf( Packet
+    ) `a\`	, u64 u128,crc , @lengthOf( A// " ++ [27880; 37322]%N ++ runes_of_ascii "
+) match
+rootA  as  chars {
+[
+    00 , ""// no comment"",  65535
+// " ++ [27880; 37322]%N ++ runes_of_ascii "
+//	t
+,
+65535 ,
+""CRC32"",""\" ++ [233]%N ++ runes_of_ascii """, 1 ] : u128 , [
+""\" ++ [233]%N ++ runes_of_ascii """,
+1 ,""""
+] : rootA 255
+    : Pad
+, //	t
+0123456789// trailing space 
+:
+x_y_z	""{,}"" : float 7:packetx ,}
+,}
+")).
+Eval vm_compute in ("<<<M3845>>>" ++ check (runes_of_ascii "MetaData A {
+    float32 u128,
+    metadata x_y_z,
+    zchar[3] zchar,
+    u16 u8x,
+}
+
+packet Packet {
+    @calculatedFrom("""")
+    rootA float ``,
+    int32 rootA,
+    repeat float BodyLength `crlf
+    line`,
+    float @lengthOf(u128),
+}// `tick` ""quote"" 'q'
+
+MetaData len {
+    A Foo `100% of %d`,
+}")).
+Eval vm_compute in ("<<<M3242>>>" ++ check (runes_of_ascii "// top
+MetaData // c0
+Foo // c1a
+  // c1b
+{
+    // c2
+zchar[ // c3a
+  // c3b
+0 // c4
+] // c5
+matchKey
+    // c6
+, // c7a
+  // c7b
+}
+    // c8
+options // c9
+{ // c10
+lengthOf // c11a
+  // c11b
+= // c12a
+  // c12b
+i32
+    // c13
+u // c14
+= // c15a
+  // c15b
+00
+    // c16
+; // c17
+} // c18
+")).
+Eval vm_compute in ("<<<M235>>>" ++ check (runes_of_ascii "packet
+stringy
+{ @lengthOf( string_
+)matchKey
+    @lengthOf( float
+)
+, @leftPad
+(  '0' ) match i8i8 as x
+    {[65535 , 10 , 4294967296] : repeatCount,""// no comment"" : // 50% %s
+stringy ,
+} , }MetaData repeatCount { u32 metadata, } MetaData	crc {
+repeatCount f32a ``
+    , }")).
+Eval vm_compute in ("<<<M1662>>>" ++ check (runes_of_ascii "// 50% %s
+packet	a1
+    { zchar[
+// a // b
+// 50% %s
+007]
+T `it's`
+    ,@rightPad
+    // a // b
+    (
+'\x00')
+    o repeatCount , }  packet Logon {  }packet	Logon //x
+{ repeat // " ++ [128512]%N ++ runes_of_ascii " emoji
+uint16 u128
+    //
+    `a\`,
+falsey falsey
+@calculatedFrom(""packet"" ) ,
+    } 	 ")).
+Eval vm_compute in ("<<<M1702>>>" ++ check (runes_of_ascii "// 50% %s
+packet	a1
+    { zchar[
+// a // b
+// 50% %s
+007]
+T `it's`
+    ,@rightPad
+    // a // b
+    (
+'\x00')
+    o repeatCount , }  packet Logon {  }packet	Logon //x
+{ repeat // " ++ [128512]%N ++ runes_of_ascii " emoji
+uint16 u128
+    //
+    `a\`,
+'1'falsey
+@calculatedFrom(""packet"" ) ,
+    } 	 ")).
+Eval vm_compute in ("<<<M1543>>>" ++ check (runes_of_ascii "// 50% %s
+packet	a1
+    { zchar[
+// a // b
+// 50% %s
+007 T
+] `it's`
+    ,@rightPad
+    // a // b
+    (
+'\x00')
+    o repeatCount , }  packet Logon {  }packet	Logon //x
+{ repeat // " ++ [128512]%N ++ runes_of_ascii " emoji
+uint16 u128
+    //
+    `a\`,
+falsey
+@calculatedFrom(""packet"" ) ,
+    } 	 ")).
+Eval vm_compute in ("<<<M1618>>>" ++ check (runes_of_ascii "// 50% %s
+packet	a1
+    { zchar[
+// a // b
+// 50% %s
+007]
+T `it's`
+    ,@rightPad
+    // a // b
+    (
+'\x00')
+    o repeatCount , }  packet Logon {  packet}	Logon //x
+{ repeat // " ++ [128512]%N ++ runes_of_ascii " emoji
+uint16 u128
+    //
+    `a\`,
+falsey
+@calculatedFrom(""packet"" ) ,
+    } 	 ")).
+Eval vm_compute in ("<<<M1676>>>" ++ check (runes_of_ascii "// 50% %s
+packet	a1
+    { zchar[
+// a // b
+// 50% %s
+007]
+T `it's`
+    ,@rightPad
+    // a // b
+    (
+'\x00')
+    o repeatCount , }  packet Logon {  }packet	Logon //x
+{ repeat // " ++ [128512]%N ++ runes_of_ascii " emoji
+uint16 u128
+    //
+    `a\`,
+falsey
+@calculatedFrom(""packet""  ,
+    } 	 ")).
+Eval vm_compute in ("<<<M3870>>>" ++ check (runes_of_ascii "MetaData charz {
+    msg_type metadata `two words`,
+    //
+    char[7] uint8x `two words`,
+    i16 leftPad,
+    // " ++ [128512]%N ++ runes_of_ascii " emoji
+    // c
+    float64 repeatCount ``,
+}
+
+options {
+    o = false;
+    packetx = true;
+    float = ""it's"";
+    f32a = ""\n"";
+    Z9_ = 0
+}")).
+Eval vm_compute in ("<<<M4>>>" ++ check (runes_of_ascii "packet //x
+body {
+    @tag(  007 ) repeat T asx `two words`
+, @calculatedFrom( """ ++ [128512]%N ++ runes_of_ascii """ )// c
+zchar[ 65535]  charz @lengthOf( trueish
+)	,
+    // a // b
+    string packetx	`// not a comment` ,
+@rightPad ( ' ') match u8x as	charz {""x y"" :
+int ,}  , // c
+}
+
+")).
+Eval vm_compute in ("<<<M1064>>>" ++ check (runes_of_ascii "MetaData uint8x
+{i8	x_y_z , char[ 255  ] repeatCount `{ , }`
+    , }options { u= false options1= 0123456789 BodyLength	= 255
+;lengthOf=
+""`tick`"" ; u
+    =	' '}
+MetaData Header {  zchar[0123456789] Z9_ ,int32 Header
+, char[007 ] A`
+`	, } //	t")).
+Eval vm_compute in ("<<<M3891>>>" ++ check (runes_of_ascii "packet Sub {
+    u8 a,
+    @calculatedFrom(""CRC16"")
+    i16 SubSum,
+}
+
+root packet Frame {
+    u16 MsgType,
+    u16 BodyLen @lengthOf(Body),
+    Sub Body,
+    string note,
+    @calculatedFrom(""CRC16"")
+    i16 Checksum,
+    u8 tail,
+}")).
+Eval vm_compute in ("<<<M1077>>>" ++ check (runes_of_ascii "options	{ }
+/// triple
+//	t
+MetaData string_
+    // `tick` ""quote"" 'q'
+    {	i64_ a1 ,u128
+    x , A
+    T `
+`
+    // packet A { u8 x, }
+    ,options1 calculatedFrom//	t
+`" ++ [28040; 24687; 31867; 22411]%N ++ runes_of_ascii "` ,
+int8 roots `a\` , zchar[ 7 ]
+MetaDataX
+,
+}")).
+Eval vm_compute in ("<<<M3494>>>" ++ check (runes_of_ascii "packet Logon {
+    u8 x,
+    string user,
+}
+packet Logout {
+    u16 reason,
+}
+packet Empty {
+}
+root packet Frame {
+    u16 MsgType,
+    @lengthOf(Body) u64 BodyLen,
+    u8 flags,
+    Logon Body,
+    u32 trailer,
+}
+")).
+Eval vm_compute in ("<<<M413>>>" ++ check (runes_of_ascii "MetaData Header {Logon calculatedFrom, float64 // `tick` ""quote"" 'q'
+i8i8 ,
+char[ 007	]packetx`doc` ,zchar[ 007	] tag `tab	here`// c
+, MetaDataX A ,x
+    // trailing space 
+    MetaDataX `line1
+line2` , }")).
+Eval vm_compute in ("<<<M1402>>>" ++ check (runes_of_ascii "MetaData // c
+Header {
+Header
+u ``
+// `tick` ""quote"" 'q'
+// @lengthOf(
+, char[
+4294967296 ]
+u128 ,
+    float32 falsey ,
+char[10 ]
+    // c
+    roots`tab	here`
+, int64 calculatedFrom `" ++ [233]%N ++ runes_of_ascii "`
+, }")).
+Eval vm_compute in ("<<<M4196>>>" ++ check (runes_of_ascii "packet u128 {
+    u8 a,
+}
+
+root packet Msg {
+    u8 k,
+    u24 {
+        u8 Hi,
+        u16 Lo,
+    },
+    repeat i24 {
+        u32 q,
+    },
+    u128,
+    u16 float32x,
+    string s,
+}")).
+Eval vm_compute in ("<<<M340>>>" ++ check (runes_of_ascii "root packet x
+{ match x as // packet A { u8 x, }
+chars {10 :
+u128  ,} // trailing space 
+, @calculatedFrom(
+""""  ) float64 lengthOf @lengthOf( calculatedFrom ) `tab	here` , }
+")).
+Eval vm_compute in ("<<<M3771>>>" ++ check (runes_of_ascii "MetaData charz {
+}
+
+options {
+    crc = ""a	b"";
+}
+
+packet falsey {
+    // trailing space 
+}
+
+packet falsey {
+    @lengthOf(uint8x)
+    uint32 asx,
+}
+
+root packet crc {
+}")).
+Eval vm_compute in ("<<<M1058>>>" ++ check (runes_of_ascii "packet
+    pack {
+@leftPad
+( )@lengthOf( f32a )
+repeat
+u64
+    asx ,// a // b
+} packet
+    a1 { @tag(007 ) rootA  @calculatedFrom( ""a	b"") , } // trailing space ")).
+Eval vm_compute in ("<<<M2161>>>" ++ check (runes_of_ascii "MetaData BodyLength
+{ int8 Foo
+, string
+    MetaDataX , float zchar ,pack options1
+,asx string_, }
+packet u8x {Foo@lengthOf( @lengthOf(charz )
+`" ++ [28040; 24687; 31867; 22411]%N ++ runes_of_ascii "`,  }
+")).
+Eval vm_compute in ("<<<M306>>>" ++ check (runes_of_ascii "
+packet packetx
+    // c
+    {
+@leftPad
+( '\x00'
+    )calculatedFrom
+, f32 u , @lengthOf(x_y_z) repeat rootA { u u , } , f32a
+    As , } // a // b")).
+Eval vm_compute in ("<<<M2049>>>" ++ check (runes_of_ascii "@lengthOf( BodyLength
+{ int8 Foo
+, string
+    MetaDataX , float zchar ,pack options1
+,asx string_, }
+packet u8x {Foo@lengthOf(charz )
+`" ++ [28040; 24687; 31867; 22411]%N ++ runes_of_ascii "`,  }
+")).
+Eval vm_compute in ("<<<M2128>>>" ++ check (runes_of_ascii "MetaData BodyLength
+{ int8 Foo
+, string
+    MetaDataX , float zchar ,pack options1
+,asx MetaData, }
+packet u8x {Foo@lengthOf(charz )
+`" ++ [28040; 24687; 31867; 22411]%N ++ runes_of_ascii "`,  }
+")).
+Eval vm_compute in ("<<<M2102>>>" ++ check (runes_of_ascii "MetaData BodyLength
+{ int8 Foo
+, string
+    MetaDataX , float zchar pack, options1
+,asx string_, }
+packet u8x {Foo@lengthOf(charz )
+`" ++ [28040; 24687; 31867; 22411]%N ++ runes_of_ascii "`,  }
+")).
+Eval vm_compute in ("<<<M2100>>>" ++ check (runes_of_ascii "MetaData BodyLength
+{ int8 Foo
+, string
+    MetaDataX , float zchar pack options1
+,asx string_, }
+packet u8x {Foo@lengthOf(charz )
+`" ++ [28040; 24687; 31867; 22411]%N ++ runes_of_ascii "`,  }
+")).
+Eval vm_compute in ("<<<M301>>>" ++ check (runes_of_ascii "options { } MetaData chars
+{
+zchar[ 0123456789 ]	BodyLength `{ , }`
+, f64 body,char[
+    // a // b
+    4294967296 ] Packet , u8x charz , }
+")).
+Eval vm_compute in ("<<<M2256>>>" ++ check (runes_of_ascii "options
+    {
+x_y_z// " ++ [27880; 37322]%N ++ runes_of_ascii "
+= 10 ; }
+packet body match
+    @calculatedFrom(
+// trailing space 
+// " ++ [27880; 37322]%N ++ runes_of_ascii "
+""1""
+)	match T as Foo
+    {
+255 :T , }
+,}")).
+Eval vm_compute in ("<<<M436>>>" ++ check (runes_of_ascii "MetaData pack {
+// c
+//	t
+i16
+float`two words` , // " ++ [128512]%N ++ runes_of_ascii " emoji
+string string_,u16 charz ,
+    string_ // a // b
+crc ,	Packet
+Z9_ ,
+    }
+")).
+Eval vm_compute in ("<<<M2321>>>" ++ check (runes_of_ascii "options
+    {
+x_y_z// " ++ [27880; 37322]%N ++ runes_of_ascii "
+= 10 ; }
+packet body {
+    @calculatedFrom(
+// trailing space 
+// " ++ [27880; 37322]%N ++ runes_of_ascii "
+""1""
+)	match T as Foo
+    {
+255 :T , f32
+,}")).
+Eval vm_compute in ("<<<M1094>>>" ++ check (runes_of_ascii "options { Logon =
+// c
+// " ++ [128512]%N ++ runes_of_ascii " emoji
+char[ 4294967296
+    ] ; body= char[] chars = 10 } packet	matchKey// trailing space 
+{ i16 crc ``,}
+
+")).
+Eval vm_compute in ("<<<M2226>>>" ++ check (runes_of_ascii "options
+    {
+x_y_z// " ++ [27880; 37322]%N ++ runes_of_ascii "
+} 10 ; }
+packet body {
+    @calculatedFrom(
+// trailing space 
+// " ++ [27880; 37322]%N ++ runes_of_ascii "
+""1""
+)	match T as Foo
+    {
+255 :T , }
+,}")).
+Eval vm_compute in ("<<<M1956>>>" ++ check (runes_of_ascii "
+packet leftPad {
+@leftPad( '0'
+u32
+i64_ `100% of %d` ,repeat// 50% %s
+i8 chars
+    ,
+} MetaData
+    f32a
+{ // packet A { u8 x, }
+}")).
+Eval vm_compute in ("<<<M546>>>" ++ check (runes_of_ascii "packet /// triple
+matchKey { @calculatedFrom( // @lengthOf(
+""// no comment"" ) repeat rootA , // a // b
+body ``	,	}packet  u128 {
+}")).
+Eval vm_compute in ("<<<M1325>>>" ++ check (runes_of_ascii "packet i64_
+    { @rightPad
+( ' '// packet A { u8 x, }
+)
+/// triple
+// " ++ [128512]%N ++ runes_of_ascii " emoji
+@lengthOf( A)
+string  msg_type`u8 x,` ,} // 50% %s")).
+Eval vm_compute in ("<<<M905>>>" ++ check (runes_of_ascii "packet
+    i8i8{
+@lengthOf( leftPad// c
+)@calculatedFrom(  """ ++ [233]%N ++ runes_of_ascii "t" ++ [233]%N ++ runes_of_ascii """ ) string uint8x`// not a comment`,
+string
+Logon , } /// triple")).
+Eval vm_compute in ("<<<M353>>>" ++ check (runes_of_ascii "options // packet A { u8 x, }
+{ roots= ""{,}""
+    asx= ""a	b"" tag =  '0'// a // b
+;
+Packet = false;
+    zchar =
+    255
+    }")).
+Eval vm_compute in ("<<<M1915>>>" ++ check (runes_of_ascii "packet o {
+    roots `it's`
+//@leftpad trailing space 
+//x
+, char[ 42
+    ]  A, // " ++ [27880; 37322]%N ++ runes_of_ascii "
+f64
+repeatCount
+    `crlf
+line`
+,}")).
+Eval vm_compute in ("<<<M1900>>>" ++ check (runes_of_ascii "packet o {
+    roots `it's`
+// trailing space 
+//x
+, char[ 42
+    ]  A, // " ++ [27880; 37322]%N ++ runes_of_ascii "
+f64
+repeatCount
+    `crlf
+line`
+match}")).
+Eval vm_compute in ("<<<M1903>>>" ++ check (runes_of_ascii "packet o {
+    roots `it's`
+// trailing space 
+//x
+, char[ 42
+    ]  A, // " ++ [27880; 37322]%N ++ runes_of_ascii "
+f64
+repeatCount
+    `crlf
+line`
+,} }")).
+Eval vm_compute in ("<<<M1012>>>" ++ check (runes_of_ascii "options {
+    options1 =
+    char[]
+    // c
+    lengthOf
+= string Foo = 255
+body = 7
+    //x
+    ;	chars
+= true
+}")).
+Eval vm_compute in ("<<<M1872>>>" ++ check (runes_of_ascii "packet o {
+    roots `it's`
+// trailing space 
+//x
+, char[ 42
+    ]  , // " ++ [27880; 37322]%N ++ runes_of_ascii "
+f64
+repeatCount
+    `crlf
+line`
+,}")).
+Eval vm_compute in ("<<<M1882>>>" ++ check (runes_of_ascii "packet o {
+    roots `it's`
+// trailing space 
+//x
+, char[ 42
+    ]  A, // " ++ [27880; 37322]%N ++ runes_of_ascii "
+
+repeatCount
+    `crlf
+line`
+,}")).
+Eval vm_compute in ("<<<M1829>>>" ++ check (runes_of_ascii " o {
+    roots `it's`
+// trailing space 
+//x
+, char[ 42
+    ]  A, // " ++ [27880; 37322]%N ++ runes_of_ascii "
+f64
+repeatCount
+    `crlf
+line`
+,}")).
+Eval vm_compute in ("<<<M2149>>>" ++ check (runes_of_ascii "MetaData BodyLength
+{ int8 Foo
+, string
+    MetaDataX , float zchar ,pack options1
+,asx string_, }
+packet")).
+Eval vm_compute in ("<<<M1299>>>" ++ check (runes_of_ascii "// " ++ [27880; 37322]%N ++ runes_of_ascii "
+options
+    { x= // packet A { u8 x, }
+""abc""
+    ;	chars =  false } options{ uint8x
+= 00
+    }
+")).
+Eval vm_compute in ("<<<M1783>>>" ++ check (runes_of_ascii "options{  lengthOf =//x
+i16;
+    BodyLength = 0 ; pack
+= false;
+    @calculatedFrom( = char[ 3 ] }")).
+Eval vm_compute in ("<<<M1294>>>" ++ check (runes_of_ascii "MetaData trueish
+{	int f32a,}
+root	packet
+    // @lengthOf(
+    zchar{
+trueish
+`line1
+line2`	,	}")).
+Eval vm_compute in ("<<<M463>>>" ++ check (runes_of_ascii "
+packet	BodyLength
+{ repeat repeatCount
+    //	t
+    ,
+@tag( 0 /// triple
+)trueish
+_x , } 	 ")).
+Eval vm_compute in ("<<<M4176>>>" ++ check (runes_of_ascii "  packet 	 // 50% %s
+      Foo
+
+    {
+
+    @rightPad 
+(	'\x00') repeat 
+char
+	stringy,
+
+}")).
+Eval vm_compute in ("<<<M945>>>" ++ check (runes_of_ascii "MetaData
+    Pad {uint64 options1 , int32	roots ,
+int16 A `` //
+, msg_type
+    trueish , }")).
+Eval vm_compute in ("<<<M1449>>>" ++ check (runes_of_ascii "packet
+T
+{ match repeatCount as	calculatedFrom
+[ {65535 ]	: As	,
+} ,}
+// trailing space 
+")).
+Eval vm_compute in ("<<<M1462>>>" ++ check (runes_of_ascii "packet
+T
+{ match repeatCount as	calculatedFrom
+{ [65535 	: As	,
+} ,}
+// trailing space 
+")).
+Eval vm_compute in ("<<<M729>>>" ++ check (runes_of_ascii "//	t
+MetaData u8x
+    {
+    msg_type T `a\` , As a1,metadata len
+, x// c
+zchar ,
+    }
+")).
+Eval vm_compute in ("<<<M1801>>>" ++ check (runes_of_ascii "options{  lengthOf =//x
+i16;
+    BodyLength = 0 ; pack
+= false;
+    A = char[ 3 ] ] }")).
+Eval vm_compute in ("<<<M3570>>>" ++ check (runes_of_ascii "
+options {  a 
+= char[
+3 ]
+    ; b
+= zchar[	0]
+	c
+=char[]
+	d
+= string
+e	=u8
+}
+
+")).
+Eval vm_compute in ("<<<M3414>>>" ++ check (runes_of_ascii "packet order_item {
+    u8 a,
+}
+root packet new_order {
+    order_item,
+    u8 x,
+}
+")).
+Eval vm_compute in ("<<<M1570>>>" ++ check (runes_of_ascii "// 50% %s
+packet	a1
+    { zchar[
+// a // b
+// 50% %s
+007]
+T `it's`
+    ,@rightPad")).
+Eval vm_compute in ("<<<M2926>>>" ++ check (runes_of_ascii "packet A {
+  match k as n {
+    [1, ""bb"", 007, ""d"", 5, ""f""] : B
+    2 : C
+  },
+}")).
+Eval vm_compute in ("<<<M3251>>>" ++ check (runes_of_ascii "MetaData Foo { zchar[ // c
+0 ] matchKey , } options { lengthOf = i32 u = 00 ; }")).
+Eval vm_compute in ("<<<M4298>>>" ++ check (runes_of_ascii "packet A {
     match k as n {
-        [
-            ""a"", 22, ""c c"", 4, ""e"",
-            66, ""g"", 8
-        ] : B,
+        [1, 22, 007] : B,
         2 : C,
     },
 }")).
-Eval vm_compute in ("<<<M1814>>>" ++ check (runes_of_ascii "
+Eval vm_compute in ("<<<M2998>>>" ++ check (runes_of_ascii "packet A { Inner { match k as n { [1,22,007,4,5,66,7,8,9,10,11] : B, }, }, }")).
+Eval vm_compute in ("<<<M2901>>>" ++ check (runes_of_ascii "packet A {
+  match k as n {
+    [""a"", 22, ""c c"", 4] : B,
+    2 : C
+  },
+}")).
+Eval vm_compute in ("<<<M2903>>>" ++ check (runes_of_ascii "packet A {
+  match k as n {
+    [1, 22, ""c c"", 4] : B,
+    2 : C
+  },
+}")).
+Eval vm_compute in ("<<<M3553>>>" ++ check (runes_of_ascii "options {
+    Logon = char[];
+    falsey = false;
+    leftPad = f32
+}")).
+Eval vm_compute in ("<<<M708>>>" ++ check (runes_of_ascii "  options{ rootA
+=
+    ""abc""/// triple
+; pack =
+    false  ;
+    }")).
+Eval vm_compute in ("<<<M1193>>>" ++ check (runes_of_ascii "packet BodyLength {
+x_y_z
+    @calculatedFrom( ""abc"" ) , }
+// c
+")).
+Eval vm_compute in ("<<<M3665>>>" ++ check (runes_of_ascii "root packet  calculatedFrom
+{	}
+
 packet
-	A  {
-	match k
+	u {
 
-    as n	{  [
-    1
-, 22 ,007  ,4 
-,5 
-,
-
-66
-, 7 
-,
-    8 ,
-    9
-,
-10 , 11]
-    :B
-	2 :C 
-}
-	,
-}
-")).
-Eval vm_compute in ("<<<M1224>>>" ++ check (runes_of_ascii "root
-// c
-packet matchKey { zchar[ 3 ] pack @calculatedFrom( ""a	b"" ) `doc` , } options { } MetaData A { int8 msg_type , }")).
-Eval vm_compute in ("<<<M1256>>>" ++ check (runes_of_ascii "root packet matchKey { zchar[ 3 ] pack @calculatedFrom( ""a	b"" ) `doc` , } options { }
-// c
-MetaData A { int8 msg_type , }")).
-Eval vm_compute in ("<<<M933>>>" ++ check (runes_of_ascii "packet A {
-    Inner {
-        u8 x `a
-    b
-  c`,
-        Deep {
-            u8 y `a
-    b
-  c`,
-        },
-    },
-}")).
-Eval vm_compute in ("<<<M1787>>>" ++ check (runes_of_ascii "  packet
-
-A
-	{
-
-match
-
-k as n {
-
-    [ 1	,
-
-    ""bb"",007
-	,
-
-    ""d""
-    ,5 ,	""f"" ] :B 2	:C } ,
-
-    }
-")).
-Eval vm_compute in ("<<<M875>>>" ++ check (runes_of_ascii "packet A {
-  match k as n {
-    [""a"", ""bb"", ""c c"", ""d"", ""e"", ""f"", ""g"", ""h"", ""i"", ""j""] : B,
-    2 : C
-  },
-}")).
-Eval vm_compute in ("<<<M1997>>>" ++ check (runes_of_ascii "
-MetaData
-body
-{
-i64	pack `it's`  ,
-
-    // c
-  	}
-	packet
-
-stringy {
-    int16
-    calculatedFrom	, }
-")).
-Eval vm_compute in ("<<<M1938>>>" ++ check (runes_of_ascii "packet crc {
-    u32 a1,
-    // trailing space 
-    roots `two words`,
-}
-
-MetaData int {
-}/// triple")).
-Eval vm_compute in ("<<<M1591>>>" ++ check (runes_of_ascii "MetaData float {
-    float64 charz `
-    `,
-}
-
-root packet chars {
-    @rightPad('0')
-    Foo,
-}")).
-Eval vm_compute in ("<<<M887>>>" ++ check (runes_of_ascii "packet A {
-  match k as n {
-    [1, 22, 007, 4, 5, 66, 7, 8, 9, 10, 11] : B
-    2 : C
-  },
-}")).
-Eval vm_compute in ("<<<M1183>>>" ++ check (runes_of_ascii "MetaData float
-// c
-{ float64 charz `
-` , } root packet chars { @rightPad ( '0' ) Foo , }")).
-Eval vm_compute in ("<<<M1215>>>" ++ check (runes_of_ascii "MetaData float { float64 charz `
-` , } root packet chars { @rightPad ( '0' ) Foo ,
-// c
-}")).
-Eval vm_compute in ("<<<M1426>>>" ++ check (runes_of_ascii "packet chars { } packet MetaDataX { @tag( 42 ) i16 string_ , repeat x `say ""hi""` // c
-, }")).
-Eval vm_compute in ("<<<M1124>>>" ++ check (runes_of_ascii "packet // c
-metadata { Logon { A `" ++ [28040; 24687; 31867; 22411]%N ++ runes_of_ascii "` , tag o , } , zchar len `// not a comment` , }")).
-Eval vm_compute in ("<<<M1156>>>" ++ check (runes_of_ascii "packet metadata { Logon { A `" ++ [28040; 24687; 31867; 22411]%N ++ runes_of_ascii "` , tag o , } , zchar len `// not a comment` , // c
-}")).
-Eval vm_compute in ("<<<M1361>>>" ++ check (runes_of_ascii "packet o { repeat Logon uint8x , } options { asx
-// c
-= zchar[ 3 ] stringy = '\x00' }")).
-Eval vm_compute in ("<<<M147>>>" ++ check (runes_of_ascii "packet
-    zchar { @lengthOf(Header )f32 string_ `a\`
-    , } // packet A { u8 x, }")).
-Eval vm_compute in ("<<<M1322>>>" ++ check (runes_of_ascii "MetaData body { i64 pack `it's` , } packet
-// c
-stringy { int16 calculatedFrom , }")).
-Eval vm_compute in ("<<<M1799>>>" ++ check (runes_of_ascii "packet
-
-A
-
-{ match
-k	as
-n
-
-{[
-
-1	,  22 
-,	""c c""
-,4,
-	5 ]:
-	B,
-
-2
-
-:  C }
+u64  len
 ,
 }
 ")).
-Eval vm_compute in ("<<<M816>>>" ++ check (runes_of_ascii "packet A {
+Eval vm_compute in ("<<<M3307>>>" ++ check (runes_of_ascii "packet u8x { } MetaData crc { char[ 4294967296 // c
+] Foo , }")).
+Eval vm_compute in ("<<<M2673>>>" ++ check (runes_of_ascii "options { a = true; b = false; c = '0'; d = ""s""; e = 007; }")).
+Eval vm_compute in ("<<<M2868>>>" ++ check (runes_of_ascii "packet A {
   match k as n {
-    [1, 22, ""c c"", 4, 5] : B,
+    [1] : B,
     2 : C
   },
 }")).
-Eval vm_compute in ("<<<M804>>>" ++ check (runes_of_ascii "packet A {
-  match k as n {
-    [1, 22, ""c c"", 4] : B
-    2 : C
-  },
+Eval vm_compute in ("<<<M712>>>" ++ check (runes_of_ascii "root	packet
+stringy// c
+{} MetaData msg_type
+{ } // c")).
+Eval vm_compute in ("<<<M1461>>>" ++ check (runes_of_ascii "packet
+T
+{ match repeatCount as	calculatedFrom
+{ [")).
+Eval vm_compute in ("<<<M526>>>" ++ check (runes_of_ascii "packet Packet  {repeat char[
+00 ] stringy ``	,
 }")).
-Eval vm_compute in ("<<<M1162>>>" ++ check (runes_of_ascii "// top
-root // c0a
-  // c0b
-packet pack // c2a
-  // c2b
-{ // c3
-} ")).
-Eval vm_compute in ("<<<M1664>>>" ++ check (runes_of_ascii "options {	leftPad 	 //	t
-  = 	 //	t
+Eval vm_compute in ("<<<M4330>>>" ++ check (runes_of_ascii "packet MetaDataX {
+}
 
-	""" ++ [28040; 24687]%N ++ runes_of_ascii """
-    }  // " ++ [128512]%N ++ runes_of_ascii " emoji")).
-Eval vm_compute in ("<<<M1282>>>" ++ check (runes_of_ascii "packet x { @rightPad // c
-( ) repeat roots Logon `doc` , }")).
-Eval vm_compute in ("<<<M263>>>" ++ check (runes_of_ascii "root
-packet i8i8 { @lengthOf(
-Packet)
-    u32 u8x, }")).
-Eval vm_compute in ("<<<M66>>>" ++ check (runes_of_ascii "// c
-MetaData calculatedFrom {Foo msg_type ,
+root packet Packet {
+}//")).
+Eval vm_compute in ("<<<M618>>>" ++ check (runes_of_ascii "packet
+// 50% %s
+//	t
+int{
+    } // " ++ [128512]%N ++ runes_of_ascii " emoji")).
+Eval vm_compute in ("<<<M79>>>" ++ check (runes_of_ascii "// trailing space 
+options{ x
+=	""it's"" }")).
+Eval vm_compute in ("<<<M3352>>>" ++ check (runes_of_ascii "root packet P {
+    char c,
+    u8 x,
 }
 ")).
-Eval vm_compute in ("<<<M952>>>" ++ check (runes_of_ascii "MetaData M {
-    u8 x `
-x`,
-    T t `
-x`,
-}")).
-Eval vm_compute in ("<<<M1110>>>" ++ check (runes_of_ascii "root packet u128 { chars `it's` // c
-, }")).
-Eval vm_compute in ("<<<M1076>>>" ++ check (runes_of_ascii "options { a = 1; // a
- b = 2 // b
- }")).
-Eval vm_compute in ("<<<M1928>>>" ++ check (runes_of_ascii "packet A {
-    u8 x `d" ++ [8239]%N ++ runes_of_ascii "`,// c" ++ [8239]%N ++ runes_of_ascii "
-}")).
-Eval vm_compute in ("<<<M758>>>" ++ check (runes_of_ascii "i64 string char[] as char[] :")).
-Eval vm_compute in ("<<<M1163>>>" ++ check (runes_of_ascii "// c
-root packet pack { }")).
-Eval vm_compute in ("<<<M1635>>>" ++ check (runes_of_ascii "root packet pack {
-}")).
-Eval vm_compute in ("<<<M1001>>>" ++ check (runes_of_ascii "packet A {
+Eval vm_compute in ("<<<M3861>>>" ++ check (runes_of_ascii "
+options
+{  i8i8 =""" ++ [128512]%N ++ runes_of_ascii """
+; A =i16
+} //
+")).
+Eval vm_compute in ("<<<M2393>>>" ++ check (runes_of_ascii "MetaData
+Foo {Header //
+pack '',	} 	 ")).
+Eval vm_compute in ("<<<M2835>>>" ++ check (runes_of_ascii "zchar[ i8 char[ @lengthOf( i8 i8 ' '")).
+Eval vm_compute in ("<<<M3354>>>" ++ check (runes_of_ascii "
+root packet	P 
+{char c
+
+,
+
+u8	x ,}")).
+Eval vm_compute in ("<<<M2620>>>" ++ check (runes_of_ascii "packet A { match k n { 1 : B }, }")).
+Eval vm_compute in ("<<<M3913>>>" ++ check (runes_of_ascii "packet len {
 }
-// c" ++ [8202]%N)).
-Eval vm_compute in ("<<<M989>>>" ++ check (runes_of_ascii "packet A {
-}// c" ++ [5760]%N)).
-Eval vm_compute in ("<<<M2067>>>" ++ check (runes_of_ascii "packet T {
+
+MetaData crc {
 }")).
-Eval vm_compute in ("<<<M995>>>" ++ check (runes_of_ascii "// c" ++ [8192]%N)).
-Eval vm_compute in ("<<<M111>>>" ++ check (@nil rune)).
+Eval vm_compute in ("<<<M2383>>>" ++ check (runes_of_ascii "MetaData
+Foo {Header //
+pack ,")).
+Eval vm_compute in ("<<<M2801>>>" ++ check (runes_of_ascii "&6,o=tz\CRx#P>@03wx*j4Y34sltC")).
+Eval vm_compute in ("<<<M3345>>>" ++ check (runes_of_ascii "options { u8x
+// c
+= false }")).
+Eval vm_compute in ("<<<M516>>>" ++ check (runes_of_ascii "
+MetaData charz { }
+// " ++ [27880; 37322]%N ++ runes_of_ascii "
+")).
+Eval vm_compute in ("<<<M3196>>>" ++ check (runes_of_ascii "options { a = 1 // a
+ ; }")).
+Eval vm_compute in ("<<<M2587>>>" ++ check (runes_of_ascii "packet A { char[ 3 y, }")).
+Eval vm_compute in ("<<<M414>>>" ++ check (runes_of_ascii "packet float
+    {  }")).
+Eval vm_compute in ("<<<M2757>>>" ++ check (runes_of_ascii "n" ++ [65533; 65533; 65533; 65533; 65533]%N ++ runes_of_ascii "2" ++ [188; 65533]%N ++ runes_of_ascii "C" ++ [65533; 952]%N ++ runes_of_ascii "s~" ++ [65533; 65533]%N ++ runes_of_ascii "V" ++ [65533; 17]%N ++ runes_of_ascii "R")).
+Eval vm_compute in ("<<<M4047>>>" ++ check (runes_of_ascii "packet A {
+    x,
+}")).
+Eval vm_compute in ("<<<M3133>>>" ++ check (runes_of_ascii "// c" ++ [8233]%N ++ runes_of_ascii "
+packet A {
+}")).
+Eval vm_compute in ("<<<M2642>>>" ++ check (runes_of_ascii "packet A { } // c")).
+Eval vm_compute in ("<<<M1230>>>" ++ check (runes_of_ascii "MetaData a1{  }
+")).
+Eval vm_compute in ("<<<M726>>>" ++ check (runes_of_ascii "
+packet u { }
+")).
+Eval vm_compute in ("<<<M2364>>>" ++ check (runes_of_ascii "MetaData
+Foo")).
+Eval vm_compute in ("<<<M2776>>>" ++ check (runes_of_ascii "int32 root")).
+Eval vm_compute in ("<<<M2436>>>" ++ check (runes_of_ascii "char[]x")).
+Eval vm_compute in ("<<<M2565>>>" ++ check (runes_of_ascii "// " ++ [233]%N ++ runes_of_ascii "
+" ++ [21517]%N)).
+Eval vm_compute in ("<<<M2802>>>" ++ check (runes_of_ascii ": i32")).
+Eval vm_compute in ("<<<M2517>>>" ++ check (runes_of_ascii """a\""")).
+Eval vm_compute in ("<<<M2531>>>" ++ check (runes_of_ascii "`\`")).
+Eval vm_compute in ("<<<M2528>>>" ++ check (runes_of_ascii "`a")).
